@@ -585,6 +585,144 @@ Proof.
   rewrite Nat.sub_0_r, octets_to_bits_spec, <- bits_spec_length, firstn_all. reflexivity.
 Qed.
 
+(* REAL, 8.5: special values and every binary form (base 2/8/16, scaling factor, the four exponent-length
+   forms).  SIDE CONDITION: a binary encoding has at least one mantissa octet (the reference reads
+   none as mantissa 0, the library refuses: 09 02 80 00) *)
+Definition real_general (fo: N) (r: bytes) : option areal :=
+  if N.ltb fo 128 then None else
+  let neg := N.eqb ((fo / 64) mod 2) 1 in
+  let base_bits := (fo / 16) mod 4 in
+  let sf := (fo / 4) mod 4 in
+  let ef := fo mod 4 in
+  let '(elen, r1) := if N.eqb ef 3 then (match r with l :: _ => N.to_nat l | [] => O end, tl r) else (S (N.to_nat ef), r) in
+  if (Nat.eqb elen 0 || Nat.ltb (length r1) elen)%bool then None else
+  let e := signed_value (firstn elen r1) in
+  let m := Z.of_N (octets_value 0 (skipn elen r1)) in
+  if N.eqb base_bits 3 then None else
+  let e2 := (if N.eqb base_bits 0 then e else if N.eqb base_bits 1 then 3 * e else 4 * e)%Z in
+  let mant := ((if neg then -1 else 1) * m * 2 ^ Z.of_N sf)%Z in
+  Some (abs_real (RBin mant e2)).
+
+Lemma real_value_general fo r : fo <> 64 -> fo <> 65 -> real_value (fo :: r) = real_general fo r.
+Proof.
+  intros H1 H2. destruct fo as [|p]; [reflexivity|].
+  do 7 (try (destruct p as [p|p|]; try reflexivity)); congruence.
+Qed.
+
+Definition real_mant_ok (c: bytes) : bool :=
+  match c with
+  | [] => true
+  | fo :: r =>
+      if N.ltb fo 128 then true else
+      let ef := fo mod 4 in
+      let '(elen, r1) := if N.eqb ef 3 then (match r with l :: _ => N.to_nat l | [] => O end, tl r) else (S (N.to_nat ef), r) in
+      match skipn elen r1 with [] => false | _ => true end
+  end.
+
+Lemma real_first_octet fo : fo < 256 ->
+  N.land fo 3 = fo mod 4 /\ N.land (N.shiftr fo 4) 3 = (fo / 16) mod 4 /\ N.land (N.shiftr fo 2) 3 = (fo / 4) mod 4
+  /\ N.eqb (N.land fo 64) 0 = negb (N.eqb ((fo / 64) mod 2) 1) /\ N.eqb (N.land fo 128) 0 = N.ltb fo 128.
+Proof.
+  intros Ho.
+  pose (P := fun fo => N.eqb (N.land fo 3) (fo mod 4) && N.eqb (N.land (N.shiftr fo 4) 3) ((fo / 16) mod 4)
+                       && N.eqb (N.land (N.shiftr fo 2) 3) ((fo / 4) mod 4)
+                       && Bool.eqb (N.eqb (N.land fo 64) 0) (negb (N.eqb ((fo / 64) mod 2) 1))
+                       && Bool.eqb (N.eqb (N.land fo 128) 0) (N.ltb fo 128)).
+  assert (H: P fo = true) by (apply byte_cases; [vm_compute; reflexivity|exact Ho]).
+  unfold P in H. repeat (apply andb_true_iff in H; destruct H as [H ?]).
+  repeat split; try (apply N.eqb_eq; assumption); apply Bool.eqb_prop; assumption.
+Qed.
+
+Lemma some_inj {A} (x y: A) : Some x = Some y -> x = y.
+Proof. intros H. inversion H. reflexivity. Qed.
+
+Definition dec_real_tail (fo: N) (eo mo: bytes) : res real :=
+  match eo, mo with
+  | [], _ | _, [] => Err EMalformed
+  | _, _ =>
+      let e := from_bytes_signed eo in
+      let bb := N.land (N.shiftr fo 4) 3 in
+      if N.ltb 2 bb then Err EMalformed else
+      let e' := if N.eqb bb 1 then (e * 3)%Z else if N.eqb bb 2 then (e * 4)%Z else e in
+      let p := Z.of_N (be_num 0 mo) in
+      let p' := if negb (N.eqb (N.land fo 64) 0) then (- p)%Z else p in
+      let sf := N.land (N.shiftr fo 2) 3 in
+      Ok (RBin (p' * 2 ^ Z.of_N sf) e')
+  end.
+
+Definition real_ref_tail (fo: N) (elen: nat) (r1: bytes) : option areal :=
+  if (Nat.eqb elen 0 || Nat.ltb (length r1) elen)%bool then None else
+  let e := signed_value (firstn elen r1) in
+  let m := Z.of_N (octets_value 0 (skipn elen r1)) in
+  if N.eqb ((fo / 16) mod 4) 3 then None else
+  let e2 := (if N.eqb ((fo / 16) mod 4) 0 then e else if N.eqb ((fo / 16) mod 4) 1 then 3 * e else 4 * e)%Z in
+  let mant := ((if N.eqb ((fo / 64) mod 2) 1 then -1 else 1) * m * 2 ^ Z.of_N ((fo / 4) mod 4))%Z in
+  Some (abs_real (RBin mant e2)).
+
+Lemma real_tail fo elen r1 a : fo < 256 -> octs r1 ->
+  real_ref_tail fo elen r1 = Some a -> skipn elen r1 <> [] ->
+  exists r, dec_real_tail fo (firstn elen r1) (skipn elen r1) = Ok r /\ abs_real r = a.
+Proof.
+  intros Hfo Hr1 H Hm. unfold real_ref_tail in H.
+  destruct (real_first_octet fo Hfo) as (F1 & F2 & F3 & F4 & F5).
+  destruct (Nat.eqb_spec elen 0) as [E0|Hne0]; [discriminate H|].
+  destruct (Nat.ltb_spec (length r1) elen) as [Hlt|Hge]; [discriminate H|]. cbn [orb] in H. cbv zeta in H.
+  unfold dec_real_tail.
+  destruct (firstn elen r1) as [|e0 eo'] eqn:Eeo.
+  { exfalso. apply (f_equal (@length _)) in Eeo. rewrite firstn_length_le in Eeo by exact Hge. cbn in Eeo. lia. }
+  destruct (skipn elen r1) as [|m0 mo'] eqn:Emo; [congruence|]. cbv zeta.
+  rewrite F2, F3, F4.
+  set (bb := (fo / 16) mod 4) in *.
+  assert (Hbb: bb < 4) by (subst bb; apply N.mod_lt; lia).
+  destruct (N.eqb_spec bb 3) as [E3|N3]; [discriminate H|].
+  destruct (N.ltb_spec 2 bb) as [Hc|_]; [lia|].
+  eexists. split; [reflexivity|]. apply some_inj in H. rewrite <- H. clear H.
+  assert (He: signed_value (e0 :: eo') = from_bytes_signed (e0 :: eo')).
+  { apply signed_value_is_from_bytes. apply octs_forallb. rewrite <- Eeo. apply octs_firstn. exact Hr1. }
+  assert (Hmm: octets_value 0 (m0 :: mo') = be_num 0 (m0 :: mo')).
+  { apply octets_value_is_be_num. apply octs_forallb. rewrite <- Emo. apply octs_skipn. exact Hr1. }
+  rewrite He, Hmm. f_equal. f_equal.
+  + destruct (N.eqb ((fo / 64) mod 2) 1); cbn [negb]; lia.
+  + destruct (N.eqb_spec bb 0) as [B0|NB0].
+    * destruct (N.eqb_spec bb 1) as [B1|_]; [lia|]. destruct (N.eqb_spec bb 2) as [B2|_]; [lia|]. reflexivity.
+    * destruct (N.eqb_spec bb 1) as [B1|NB1]; [lia|]. destruct (N.eqb_spec bb 2) as [B2|NB2]; [lia|lia].
+Qed.
+
+Theorem real_leaf : forall c a, octs c -> real_value c = Some a -> real_mant_ok c = true ->
+  exists r, dec_real c = Ok r /\ abs_real r = a.
+Proof.
+  intros c a Hc H Hm. destruct c as [|fo r].
+  - cbn in H. inversion H. exists (RDec 0 0). split; reflexivity.
+  - apply octs_cons in Hc. destruct Hc as [Hfo Hr].
+    destruct (N.eq_dec fo 64) as [->|N64].
+    { destruct r as [|x r']; [cbn in H; inversion H; exists RPInf; split; reflexivity|].
+      change (real_value (64 :: x :: r')) with (real_general 64 (x :: r')) in H. discriminate H. }
+    destruct (N.eq_dec fo 65) as [->|N65].
+    { destruct r as [|x r']; [cbn in H; inversion H; exists RNInf; split; reflexivity|].
+      change (real_value (65 :: x :: r')) with (real_general 65 (x :: r')) in H. discriminate H. }
+    rewrite (real_value_general fo r N64 N65) in H. unfold real_general in H. unfold real_mant_ok in Hm.
+    destruct (N.ltb fo 128) eqn:E128; [discriminate H|]. cbv zeta in H, Hm.
+    destruct (real_first_octet fo Hfo) as (F1 & F2 & F3 & F4 & F5).
+    set (ef := fo mod 4) in *.
+    assert (Hef: ef < 4) by (subst ef; apply N.mod_lt; lia).
+    destruct r as [|c0 crest].
+    { exfalso. destruct (N.eqb ef 3); cbn [tl length] in H; [discriminate H|].
+      destruct (Nat.ltb_spec 0 (S (N.to_nat ef))) as [_|Hc]; [|lia]. rewrite orb_true_r in H. discriminate H. }
+    destruct (N.eqb_spec ef 3) as [E3|N3].
+    + cbn [tl] in H, Hm.
+      assert (Hd: dec_real (fo :: c0 :: crest) = dec_real_tail fo (firstn (N.to_nat c0) crest) (skipn (N.to_nat c0) crest)).
+      { unfold dec_real. rewrite F5, E128. cbn [negb]. cbv zeta. rewrite F1, E3. reflexivity. }
+      rewrite Hd. apply octs_cons in Hr. destruct Hr as [_ Hr].
+      apply (real_tail fo (N.to_nat c0) crest a Hfo Hr H). intros E. rewrite E in Hm. discriminate Hm.
+    + assert (Hd: dec_real (fo :: c0 :: crest)
+                  = dec_real_tail fo (firstn (S (N.to_nat ef)) (c0 :: crest)) (skipn (S (N.to_nat ef)) (c0 :: crest))).
+      { unfold dec_real. rewrite F5, E128. cbn [negb]. cbv zeta. rewrite F1.
+        destruct (N.eqb_spec (ef + 1) 4) as [E4|_]; [lia|].
+        replace (N.to_nat (ef + 1)) with (S (N.to_nat ef)) by lia. reflexivity. }
+      rewrite Hd.
+      apply (real_tail fo (S (N.to_nat ef)) (c0 :: crest) a Hfo Hr H). intros E. rewrite E in Hm. discriminate Hm.
+Qed.
+
 Example stage2_leaves :
   oid_value [42; 134; 72; 128 + 6; 13] = Some [1; 2; 840; 781] /\ dec_oid [42; 134; 72; 128 + 6; 13] = Ok [1; 2; 840; 781]
   /\ signed_value [255; 0; 128] = (-65408)%Z /\ from_bytes_signed [255; 0; 128] = (-65408)%Z.
@@ -939,6 +1077,101 @@ Qed.
 Lemma plain_of_tagged T : tagged_base T = true -> plain_map T.
 Proof. intros H. apply plain_map_tagged. destruct T; try exact I; discriminate H. Qed.
 
+(* ---------- the same two levels for any spec that resolves to T0 (a type, or a tag map) ---------- *)
+
+Definition run_def (k: proc dval) (l: N) : proc dval :=
+  let! p0 := tell in let! v := k in let! p1 := tell in
+  if N.eqb (N.of_nat (p1 - p0)) l then Ret v else Raise EMalformed.
+
+Definition disp_value rec (f: nat) cd fl (T0: ty) (ts: tagset) (len: option N) (sfun: bool) : proc dval :=
+  match len with
+  | Some l => run_def (dec_value rec f cd fl (Some T0) ts (Some l) sfun) l
+  | None => dec_value rec f cd fl (Some T0) ts None sfun
+  end.
+Definition disp_explicit (rec: spec -> tagset -> option (option N) -> bool -> bool -> proc dval) (f: nat) (sp: spec) (ts: tagset) (len: option N) : proc dval :=
+  match len with
+  | Some l => run_def (rec sp ts None false false) l
+  | None => raw_loop rec sp ts f DNoValue
+  end.
+
+(* how the dispatch treats spec sp on the way to type T0: EXPLICIT levels while the tags read are a
+   proper outer part of T0's tag set, T0's value decoder once they are all of it *)
+Record sp_ok (sp: spec) (T0: ty) : Prop := {
+  so_match : forall rec f ts len sfun cd fl, keys ts = keys (tagset_of' T0) -> by_type BER T0 = Some (cd, fl) ->
+     dispatch BER rec f sp ts len sfun = disp_value rec f cd fl T0 ts len sfun;
+  so_explicit : forall rec f t acc len pre, keys (tagset_of' T0) = pre ++ keys (t :: acc) -> pre <> [] ->
+     tcon t = true -> tcls t <> Univ ->
+     dispatch BER rec f sp (t :: acc) len false = disp_explicit rec f sp (t :: acc) len
+}.
+
+Lemma sp_ok_sty T0 : tagged_base T0 = true -> sp_ok (STy T0) T0.
+Proof.
+  intros Htb. pose proof (plain_of_tagged T0 Htb) as Hpm. split.
+  - intros rec f ts len sfun cd fl Hk Hby. apply tagset_eqb_keys in Hk.
+    assert (Hpp: tm_postponed (tagmap_of T0) = false) by (rewrite Hpm; reflexivity).
+    destruct len as [l|]; [apply (dispatch_match_def _ _ _ _ _ _ cd fl Hk Hpp Hby)|apply (dispatch_match_indef _ _ _ _ _ cd fl Hk Hpp Hby)].
+  - intros rec f t acc len pre Hk Hpre Hcon Hcls.
+    assert (Hmis: tagset_eqb (t :: acc) (tagset_of' T0) = false).
+    { apply tagset_eqb_keys_false. intros E. apply (f_equal (@length _)) in Hk. unfold keys in Hk.
+      rewrite app_length, !map_length in Hk. destruct pre; [congruence|]. cbn [length] in *. lia. }
+    destruct len as [l|];
+      [apply (dispatch_explicit_def _ _ _ _ _ _ Hmis (plain_map_contains T0 _ Hpm Hmis) Hcon Hcls)
+      |apply (dispatch_explicit_indef _ _ _ _ _ Hmis (plain_map_contains T0 _ Hpm Hmis) Hcon Hcls)].
+Qed.
+
+Lemma item_of_value_sp : forall f sp T0 acc n allow sfun v cd fl,
+  shape n -> fitsn f n -> (allow = true -> eoc_start (node_raw n) = false) ->
+  sp_ok sp T0 -> keys (node_wire n :: acc) = keys (tagset_of' T0) -> by_type BER T0 = Some (cd, fl) ->
+  consumes (dec_value (dec_call BER f) f cd fl (Some T0) (node_wire n :: acc) (node_len n) sfun) (node_body n) v ->
+  consumes (dec_call BER (S f) sp acc None allow sfun) (node_raw n) v.
+Proof.
+  intros f sp T0 acc n allow sfun v cd fl Hsh [Hmax Hf] Heoc Hsp Heq Hby Hval.
+  destruct (shape_split n Hsh) as (ib & lb & Hi & Hl & Eraw). rewrite Eraw in *.
+  apply (call_consumes f sp acc allow sfun ib lb (node_wire n) (node_len n) (node_body n) v Hi Hl).
+  - rewrite !app_length in Hf. lia.
+  - intros Ha. apply (eoc_start_prefix _ (node_body n)); [apply (hdr_len2 _ _ _ _ Hi Hl)|apply Heoc; exact Ha].
+  - rewrite (so_match sp T0 Hsp _ _ _ _ _ cd fl Heq Hby). unfold disp_value.
+    destruct (node_len n) as [l|] eqn:El; [|exact Hval].
+    rewrite (node_len_def n l El). apply run_value_def. rewrite <- (node_len_def n l El). exact Hval.
+Qed.
+
+Lemma item_of_explicit_sp : forall f sp T0 acc c num indef k raw allow v pre,
+  shape (Cons c num indef [k] raw) -> fitsn (S f) (Cons c num indef [k] raw) ->
+  (allow = true -> eoc_start raw = false) ->
+  sp_ok sp T0 -> keys (tagset_of' T0) = pre ++ keys (mkTag c true num :: acc) -> pre <> [] -> c <> Univ -> is_dv v ->
+  consumes (dec_call BER (S f) sp (mkTag c true num :: acc) None indef false) (node_raw k) v ->
+  consumes (dec_call BER (S (S f)) sp acc None allow false) raw v.
+Proof.
+  intros f sp T0 acc c num indef k raw allow v pre Hsh [Hmax Hf] Heoc Hsp Hk Hpre Hcls Hdv Hin.
+  destruct (shape_split _ Hsh) as (ib & lb & Hi & Hl & Eraw).
+  cbn [node_raw node_wire node_len node_body] in *. rewrite Eraw in *.
+  assert (Ekr: kids_raw [k] = node_raw k) by (unfold kids_raw; cbn [map concat]; apply app_nil_r).
+  rewrite Ekr in *.
+  apply (call_consumes (S f) sp acc allow false ib lb (mkTag c true num) _ _ v Hi Hl).
+  - rewrite !app_length in Hf. lia.
+  - intros Ha. apply (eoc_start_prefix _ (node_raw k ++ (if indef then [0; 0] else []))); [apply (hdr_len2 _ _ _ _ Hi Hl)|apply Heoc; exact Ha].
+  - rewrite (so_explicit sp T0 Hsp _ _ _ _ _ pre Hk Hpre eq_refl Hcls). unfold disp_explicit.
+    destruct indef.
+    + intros s tl Hav. rewrite <- app_assoc in Hav.
+      destruct (Hin s ([0; 0] ++ tl) Hav) as (s1 & Hrun & Hp1 & Ha1 & Hc1).
+      assert (Hav1: avail s1 = 0 :: 0 :: tl) by (apply (consumes_avail (node_raw k) s _ s1 Hav Hp1 Ha1)).
+      cbn [raw_loop]. rewrite (resume_pbind_done _ _ _ _ _ Hrun).
+      assert (Estep: resume (match v with DEoo => match DNoValue with DNoValue => Raise EMalformed | _ => Ret DNoValue end
+                                     | _ => raw_loop (dec_call BER (S f)) sp (mkTag c true num :: acc) f v end) s1
+                     = resume (raw_loop (dec_call BER (S f)) sp (mkTag c true num :: acc) f v) s1).
+      { destruct v; try contradiction. reflexivity. }
+      rewrite Estep. clear Estep.
+      destruct f as [|f'].
+      { exfalso. pose proof (shape_raw_len k) as Hk2.
+        apply shape_cons in Hsh. destruct Hsh as (_ & _ & _ & _ & _ & Hall). inversion Hall as [|? ? [Hk0 _] _]; subst.
+        specialize (Hk2 Hk0). pose proof (hdr_len2 _ _ _ _ Hi Hl). rewrite !app_length in Hf. cbn [length] in Hf. lia. }
+      cbn [raw_loop]. rewrite (resume_pbind_done _ _ _ _ _ (call_eoo (S f') _ _ _ s1 tl Hav1)).
+      destruct v; try contradiction. cbn [resume].
+      exists (adv s1 2). split; [reflexivity|]. rewrite app_length. cbn [length].
+      rewrite pos_adv. split; [lia|]. split; [rewrite arrived_adv; exact Ha1|rewrite closed_adv; exact Hc1].
+    + rewrite app_nil_r in *. apply run_value_def. exact Hin.
+Qed.
+
 (* ====================================================================== *)
 (* 4. the member loops: string segments, SEQUENCE OF, SEQUENCE               *)
 (* ====================================================================== *)
@@ -1260,36 +1493,40 @@ Qed.
 
 Section OctetValue.
   Variables (f: nat) (T0 proto: ty) (fl: dec_flags) (ts: tagset) (sfun: bool).
-  Hypothesis Hcreate : forall b, create (Some T0) proto ts (VOcts b) = Ret (DV T0 (VOcts b)).
+  (* the octet strings the type accepts (character strings: those of its repertoire) *)
+  Variable okb : bytes -> Prop.
+  Hypothesis Hcreate : forall b, okb b -> create (Some T0) proto ts (VOcts b) = Ret (DV T0 (VOcts b)).
   Hypothesis Hfl : df_constructed fl = true.
 
   Lemma octets_prim_value content :
-    tag0_simple ts = true -> DecPrim.fits f content ->
+    tag0_simple ts = true -> DecPrim.fits f content -> okb content ->
     consumes (dec_octets (dec_call BER f) f proto fl (Some T0) ts (N.of_nat (length content)) sfun) content (DV T0 (VOcts content)).
-  Proof. intros Hts Hfit. unfold dec_octets. rewrite Hts. apply consumes_ret; [exact Hfit|apply Hcreate]. Qed.
+  Proof. intros Hts Hfit Hb. unfold dec_octets. rewrite Hts. apply consumes_ret; [exact Hfit|apply Hcreate; exact Hb]. Qed.
 
   Lemma octets_def_value parts bss :
     tag0_simple ts = false -> Forall2 (oseg (dec_call BER f) false) parts bss -> (length parts < f)%nat ->
+    okb (concat bss) ->
     consumes (dec_octets (dec_call BER f) f proto fl (Some T0) ts (N.of_nat (length (concat parts))) sfun) (concat parts)
              (DV T0 (VOcts (concat bss))).
   Proof.
-    intros Hts HF Hlf s tl Hav. unfold dec_octets. rewrite Hts, Hfl. cbn [negb]. rewrite resume_tell.
+    intros Hts HF Hlf Hb s tl Hav. unfold dec_octets. rewrite Hts, Hfl. cbn [negb]. rewrite resume_tell.
     destruct (octets_loop_run (dec_call BER f) proto (Some T0) ts parts bss HF f [] (pos s) (length (concat parts)) s tl Hlf Hav
                 ltac:(lia) ltac:(lia)) as (s' & Hrun & _ & Hpos & Harr & Hcl).
-    rewrite Hrun. cbn [app]. rewrite Hcreate. cbn [resume]. exists s'. repeat split; assumption.
+    rewrite Hrun. cbn [app]. rewrite (Hcreate _ Hb). cbn [resume]. exists s'. repeat split; assumption.
   Qed.
 
   Lemma octets_indef_value f' parts bss :
     f = S f' -> Forall2 (oseg (dec_call BER f) true) parts bss -> (length parts < f)%nat ->
+    okb (concat bss) ->
     consumes (dec_octets_indef (dec_call BER f) f proto (Some T0) ts) (concat parts ++ [0; 0]) (DV T0 (VOcts (concat bss))).
   Proof.
-    intros Ef HF Hlf s tl Hav. unfold dec_octets_indef. rewrite <- app_assoc in Hav.
+    intros Ef HF Hlf Hb s tl Hav. unfold dec_octets_indef. rewrite <- app_assoc in Hav.
     assert (Heoo: forall sp acc sfun0 s0 tl0, avail s0 = 0 :: 0 :: tl0 ->
                   resume (dec_call BER f sp acc None true sfun0) s0 = inr (Ok DEoo, adv s0 2)).
     { rewrite Ef. apply dec_call_eoo. }
     destruct (octets_indef_loop_run (dec_call BER f) Heoo proto (Some T0) ts parts bss HF f [] s tl Hlf Hav)
       as (s' & Hrun & _ & Hpos & Harr & Hcl).
-    rewrite Hrun. cbn [app]. rewrite Hcreate. cbn [resume]. exists s'. rewrite app_length. cbn [length].
+    rewrite Hrun. cbn [app]. rewrite (Hcreate _ Hb). cbn [resume]. exists s'. rewrite app_length. cbn [length].
     repeat split; assumption.
   Qed.
 End OctetValue.
@@ -1332,7 +1569,7 @@ Proof.
     inversion E; subst c num c0 raw0. destruct Hok as (Hsh & Ho & Hfit).
     apply (item_of_value f TOcts [] _ allow sfun _ DcOcts (mkDecFlags true (Some KOcts)) Hsh Hfit Heoc); try reflexivity.
     cbn [node_len node_body node_wire dec_value base_of].
-    apply octets_prim_value; [intros b; apply create_octs|reflexivity|apply (fits_of_body f _ Hfit Hsh)].
+    apply (octets_prim_value f TOcts TOcts _ _ sfun (fun _ => True) (fun b _ => create_octs _ b)); [reflexivity|apply (fits_of_body f _ Hfit Hsh)|exact I].
   - destruct (segments_inv _ _ _ Hseg) as [(c0 & raw0 & E & _)|(i & kids0 & raw0 & l & fuel' & E & _ & Hall & ->)]; [discriminate E|].
     inversion E; subst c num i kids0 raw0. clear E.
     destruct (nok_kids _ _ _ _ _ _ Hok) as (f' & -> & Hcnt & Hkids).
@@ -1345,9 +1582,9 @@ Proof.
     cbn [node_len node_body node_wire dec_value base_of]. unfold kids_raw.
     destruct indef.
     + rewrite <- (map_length node_raw kids) in Hcnt.
-      apply (octets_indef_value (S (S f')) TOcts TOcts _ (fun b => create_octs _ b) (S f') _ _ eq_refl HF). lia.
+      apply (octets_indef_value (S (S f')) TOcts TOcts _ (fun _ => True) (fun b _ => create_octs _ b) (S f') _ _ eq_refl HF); [lia|exact I].
     + rewrite app_nil_r. rewrite <- (map_length node_raw kids) in Hcnt.
-      apply (octets_def_value (S (S f')) TOcts TOcts (mkDecFlags true (Some KOcts)) [mkTag Univ true 4] sfun (fun b => create_octs _ b) eq_refl _ _ eq_refl HF). lia.
+      apply (octets_def_value (S (S f')) TOcts TOcts (mkDecFlags true (Some KOcts)) [mkTag Univ true 4] sfun (fun _ => True) (fun b _ => create_octs _ b) eq_refl _ _ eq_refl HF); [lia|exact I].
 Qed.
 
 (* ---------- BIT STRING: any segmentation (8.6.4) ---------- *)
@@ -1356,11 +1593,27 @@ Qed.
    definite-length constructed BIT STRING without segments (23 00).  [safe L n]: no definite-length
    constructed node without members carries one of the (class, number) pairs of L. *)
 Definition is_nil {A} (l: list A) : bool := match l with [] => true | _ => false end.
-Fixpoint safe (L: list (tclass * N)) (n: node) : bool :=
+(* marked (class, number) pairs: KB = a BIT STRING may be carried under it, KR = a REAL, KA = a character
+   string whose repertoire the library checks (ASCII) *)
+Inductive kind := KB | KR | KA.
+Definition kind_eqb (a b: kind) : bool := match a, b with KB, KB | KR, KR | KA, KA => true | _, _ => false end.
+Definition mkey : Type := (kind * (tclass * N))%type.
+Definition mkey_eqb (a b: mkey) : bool := kind_eqb (fst a) (fst b) && tag_pair_eqb (snd a) (snd b).
+Definition memk (k: mkey) (L: list mkey) : bool := existsb (mkey_eqb k) L.
+Definition ascii (b: bytes) : bool := forallb (fun x => N.ltb x 128) b.
+Fixpoint leaves_ascii (n: node) : bool :=
   match n with
-  | Prim _ _ _ _ => true
+  | Prim _ _ contents _ => ascii contents
+  | Cons _ _ _ kids _ => forallb leaves_ascii kids
+  end.
+Fixpoint safe (L: list mkey) (n: node) : bool :=
+  match n with
+  | Prim c num contents _ =>
+      (negb (memk (KR, (c, num)) L) || real_mant_ok contents) && (negb (memk (KA, (c, num)) L) || ascii contents)
   | Cons c num indef kids _ =>
-      negb (negb indef && is_nil kids && existsb (tag_pair_eqb (c, num)) L) && forallb (safe L) kids
+      negb (negb indef && is_nil kids && memk (KB, (c, num)) L)
+      && (negb (memk (KA, (c, num)) L) || forallb leaves_ascii kids)
+      && forallb (safe L) kids
   end.
 
 Lemma bit_segments_inv fuel n l : bit_segments fuel n = Some l ->
@@ -1474,7 +1727,7 @@ Proof.
 Qed.
 
 (* Stage 4b: a BIT STRING in any segmentation is read to the bits the reference joins *)
-Theorem bit_string_item : forall L, existsb (tag_pair_eqb (Univ, 3)) L = true ->
+Theorem bit_string_item : forall L, memk (KB, (Univ, 3)) L = true ->
   forall n fuel l bs f allow,
   nok f n -> (allow = true -> eoc_start (node_raw n) = false) -> safe L n = true ->
   bit_segments fuel n = Some l -> join_bit_segments l = Some bs ->
@@ -1530,31 +1783,41 @@ Proof. vm_compute. repeat split. Qed.
 (* ====================================================================== *)
 
 Definition latin1 (n: N) : bool := existsb (N.eqb n) [20; 21; 25; 27; 7].
+(* NumericString, PrintableString, IA5String, VisibleString, GeneralizedTime, UTCTime; UTF8String *)
+Definition ascii_str (n: N) : bool := existsb (N.eqb n) [18; 19; 22; 26; 24; 23; 12].
 Definition non_univ (t: tag) : bool := negb (cls_eqb (tcls t) Univ).
 
 (* every simple type but REAL (character strings: those whose repertoire is all octets, so that the
-   library has no reason of its own to refuse), SEQUENCE OF, SET OF, SEQUENCE of mandatory components,
-   IMPLICIT and EXPLICIT tagging of any class but UNIVERSAL and any number, nested to any depth *)
+   library has no reason of its own to refuse), SEQUENCE OF, SET OF, SEQUENCE (mandatory, OPTIONAL, DEFAULT components; in every run of OPTIONAL/DEFAULT
+   components up to the next mandatory one the outermost tags are distinct),
+   SET of components with distinct outermost tags (mandatory, OPTIONAL or DEFAULT), IMPLICIT and EXPLICIT tagging of any class but UNIVERSAL and any number, nested to any depth *)
+Definition outer_key (T: ty) : tclass * N := match first_tags T with Some [k] => k | _ => (Univ, 0) end.
+Fixpoint nodupb (l: list (tclass * N)) : bool :=
+  match l with [] => true | x :: r => negb (existsb (tag_pair_eqb x) r) && nodupb r end.
+
 Fixpoint frag (T: ty) : bool :=
   match T with
-  | TBool | TInt | TEnum | TBits | TOcts | TNull | TOid => true
-  | TStr n => latin1 n
-  | TReal => false
+  | TBool | TInt | TEnum | TBits | TOcts | TNull | TOid | TReal => true
+  | TStr n => latin1 n || ascii_str n
   | TSeqOf t | TSetOf t => frag t
-  | TSeq fs => forallb (fun f => is_req (fst f) && frag (snd f)) fs
+  | TSeq fs => forallb (fun f => frag (snd f)) fs
+                && forallb (fun idx => nodupb (map outer_key (ambiguous_run (skipn idx fs)))) (seq 0 (length fs))
+  | TSet fs => forallb (fun f => frag (snd f)) fs && nodupb (map (fun f => outer_key (snd f)) fs)
   | TImp t x | TExp t x => non_univ t && frag x
-  | TSet _ | TChoice _ | TAny => false
+  | TChoice _ | TAny => false
   end.
 
-(* the (class, number) pairs under which a BIT STRING can appear in an encoding of T *)
-Fixpoint bits_keys (T: ty) (e: option (tclass * N)) : list (tclass * N) :=
+(* the marked (class, number) pairs under which a BIT STRING / a REAL can appear in an encoding of T *)
+Fixpoint side_keys (T: ty) (e: option (tclass * N)) : list mkey :=
   match T with
-  | TBits => [(Univ, 3); orkey e (Univ, 3)]
-  | TImp t x => bits_keys x (Some (orkey e (key t)))
-  | TExp t x => bits_keys x None
-  | TSeqOf t | TSetOf t => bits_keys t None
-  | TSeq fs | TSet fs => flat_map (fun f => bits_keys (snd f) None) fs
-  | TChoice alts => flat_map (fun a => bits_keys a None) alts
+  | TBits => [(KB, (Univ, 3)); (KB, orkey e (Univ, 3))]
+  | TReal => [(KR, orkey e (Univ, 9))]
+  | TStr n => if ascii_str n then [(KA, orkey e (Univ, n))] else []
+  | TImp t x => side_keys x (Some (orkey e (key t)))
+  | TExp t x => side_keys x None
+  | TSeqOf t | TSetOf t => side_keys t None
+  | TSeq fs | TSet fs => flat_map (fun f => side_keys (snd f) None) fs
+  | TChoice alts => flat_map (fun a => side_keys a None) alts
   | _ => []
   end.
 
@@ -1714,17 +1977,16 @@ Lemma by_type_base' T : by_type BER T = by_type BER (base_of T).
 Proof. apply RoundTrip1.by_type_base. Qed.
 
 (* the tags read complete the tag set: hand over to the value decoder of the base type *)
-Lemma base_item : forall T0 acc e u n f allow cd fl v,
-  tagged_base T0 = true -> by_type BER (base_of T0) = Some (cd, fl) ->
+Lemma base_item : forall sp T0 acc e u n f allow cd fl v,
+  sp_ok sp T0 -> tagged_base T0 = true -> by_type BER (base_of T0) = Some (cd, fl) ->
   keys (tagset_of' T0) = [orkey e u] ++ keys acc -> same_tag (orkey e u) n = true ->
   nok f n -> (allow = true -> eoc_start (node_raw n) = false) ->
   consumes (dec_value (dec_call BER f) f cd fl (Some T0) (node_wire n :: acc) (node_len n) false) (node_body n) v ->
-  consumes (dec_call BER (S f) (STy T0) acc None allow false) (node_raw n) v.
+  consumes (dec_call BER (S f) sp acc None allow false) (node_raw n) v.
 Proof.
-  intros T0 acc e u n f allow cd fl v Htb Hby Hkeys Hsame (Hsh & Ho & Hfit) Heoc Hval.
-  apply (item_of_value f T0 acc n allow false v cd fl Hsh Hfit Heoc).
-  - apply (wire_univ_tagset n (orkey e u) acc T0 (same_tag_key _ _ Hsame) Hkeys).
-  - rewrite (plain_of_tagged T0 Htb). reflexivity.
+  intros sp T0 acc e u n f allow cd fl v Hsp Htb Hby Hkeys Hsame (Hsh & Ho & Hfit) Heoc Hval.
+  apply (item_of_value_sp f sp T0 acc n allow false v cd fl Hsh Hfit Heoc Hsp).
+  - cbn [keys map]. fold (keys acc). rewrite (same_tag_key _ _ Hsame), Hkeys. reflexivity.
   - rewrite by_type_base'. exact Hby.
   - exact Hval.
 Qed.
@@ -1739,20 +2001,20 @@ Lemma abs_base T v : abs T v = abs (base_of T) v. Proof. apply abs_wrappers. Qed
 (* what the induction over the type establishes: T is the part of the guiding type T0 still to be
    matched against node n, acc the tags read at the EXPLICIT levels above, e the (class, number) an
    IMPLICIT tag above substitutes for T's own outermost tag *)
-Definition item_ok (T: ty) : Prop := forall T0 acc e n a f allow L,
-  tagged_base T0 = true -> base_of T0 = base_of T ->
+Definition item_ok (T: ty) : Prop := forall sp T0 acc e n a f allow L,
+  sp_ok sp T0 -> tagged_base T0 = true -> base_of T0 = base_of T ->
   keys (tagset_of' T0) = kets T e ++ keys acc -> e_ok e ->
   nok f n -> (allow = true -> eoc_start (node_raw n) = false) ->
-  safe L n = true -> (forall k, In k (bits_keys T e) -> existsb (tag_pair_eqb k) L = true) ->
+  safe L n = true -> (forall k, In k (side_keys T e) -> memk k L = true) ->
   interp T e n = Some a ->
-  exists v, consumes (dec_call BER (S f) (STy T0) acc None allow false) (node_raw n) (DV T0 v) /\ abs T v = a.
+  exists v, consumes (dec_call BER (S f) sp acc None allow false) (node_raw n) (DV T0 v) /\ abs T v = a.
 
 Lemma item_bool : item_ok TBool.
 Proof.
-  intros T0 acc e n a f allow L Htb Hbase Hkeys He Hok Heoc Hsafe HL Hint.
+  intros sp T0 acc e n a f allow L Hsp Htb Hbase Hkeys He Hok Heoc Hsafe HL Hint.
   destruct (interp_bool _ _ _ Hint) as (c & num & o & raw & -> & Hsame & ->).
   exists (VBool (negb (Z.eqb (from_bytes_signed [o]) 0))). split.
-  - apply (base_item T0 acc e (Univ, 1) _ f allow DcBoolBer (mkDecFlags true (Some KBool)) _ Htb); try assumption.
+  - apply (base_item sp T0 acc e (Univ, 1) _ f allow DcBoolBer (mkDecFlags true (Some KBool)) _ Hsp Htb); try assumption.
     + rewrite Hbase. reflexivity.
     + cbn [dec_value node_len node_body node_wire]. destruct Hok as (Hsh & Ho & Hfit).
       apply consumes_boolean; [reflexivity|apply (fits_of_body f _ Hfit Hsh)|exact Hbase].
@@ -1762,10 +2024,10 @@ Qed.
 
 Lemma item_int : item_ok TInt.
 Proof.
-  intros T0 acc e n a f allow L Htb Hbase Hkeys He Hok Heoc Hsafe HL Hint.
+  intros sp T0 acc e n a f allow L Hsp Htb Hbase Hkeys He Hok Heoc Hsafe HL Hint.
   destruct (interp_int _ _ _ Hint) as (c & num & o & cs & raw & -> & Hsame & ->).
   exists (VInt (from_bytes_signed (o :: cs))). destruct Hok as (Hsh & Ho & Hfit). split.
-  - apply (base_item T0 acc e (Univ, 2) _ f allow DcInt (mkDecFlags true (Some KInt)) _ Htb); try assumption.
+  - apply (base_item sp T0 acc e (Univ, 2) _ f allow DcInt (mkDecFlags true (Some KInt)) _ Hsp Htb); try assumption.
     + rewrite Hbase. reflexivity.
     + split; [exact Hsh|split; assumption].
     + cbn [dec_value node_len node_body node_wire df_proto].
@@ -1775,10 +2037,10 @@ Qed.
 
 Lemma item_enum : item_ok TEnum.
 Proof.
-  intros T0 acc e n a f allow L Htb Hbase Hkeys He Hok Heoc Hsafe HL Hint.
+  intros sp T0 acc e n a f allow L Hsp Htb Hbase Hkeys He Hok Heoc Hsafe HL Hint.
   destruct (interp_enum _ _ _ Hint) as (c & num & o & cs & raw & -> & Hsame & ->).
   exists (VInt (from_bytes_signed (o :: cs))). destruct Hok as (Hsh & Ho & Hfit). split.
-  - apply (base_item T0 acc e (Univ, 10) _ f allow DcInt (mkDecFlags true (Some KInt)) _ Htb); try assumption.
+  - apply (base_item sp T0 acc e (Univ, 10) _ f allow DcInt (mkDecFlags true (Some KInt)) _ Hsp Htb); try assumption.
     + rewrite Hbase. reflexivity.
     + split; [exact Hsh|split; assumption].
     + cbn [dec_value node_len node_body node_wire df_proto].
@@ -1788,10 +2050,10 @@ Qed.
 
 Lemma item_null : item_ok TNull.
 Proof.
-  intros T0 acc e n a f allow L Htb Hbase Hkeys He Hok Heoc Hsafe HL Hint.
+  intros sp T0 acc e n a f allow L Hsp Htb Hbase Hkeys He Hok Heoc Hsafe HL Hint.
   destruct (interp_null _ _ _ Hint) as (c & num & raw & -> & Hsame & ->).
   exists VNull. split; [|reflexivity].
-  apply (base_item T0 acc e (Univ, 5) _ f allow DcNull (mkDecFlags true (Some KNull)) _ Htb); try assumption.
+  apply (base_item sp T0 acc e (Univ, 5) _ f allow DcNull (mkDecFlags true (Some KNull)) _ Hsp Htb); try assumption.
   - rewrite Hbase. reflexivity.
   - cbn [dec_value node_len node_body node_wire length]. change (N.of_nat 0) with 0.
     apply consumes_null; [reflexivity|rewrite Hbase; exact I].
@@ -1799,10 +2061,10 @@ Qed.
 
 Lemma item_oid : item_ok TOid.
 Proof.
-  intros T0 acc e n a f allow L Htb Hbase Hkeys He Hok Heoc Hsafe HL Hint.
+  intros sp T0 acc e n a f allow L Hsp Htb Hbase Hkeys He Hok Heoc Hsafe HL Hint.
   destruct (interp_oid _ _ _ Hint) as (c & num & cs & raw & arcs & -> & Hsame & Hoid & ->).
   exists (VOid arcs). split; [|reflexivity]. destruct Hok as (Hsh & Ho & Hfit).
-  apply (base_item T0 acc e (Univ, 6) _ f allow DcOid (mkDecFlags true (Some KOid)) _ Htb); try assumption.
+  apply (base_item sp T0 acc e (Univ, 6) _ f allow DcOid (mkDecFlags true (Some KOid)) _ Hsp Htb); try assumption.
   - rewrite Hbase. reflexivity.
   - split; [exact Hsh|split; assumption].
   - cbn [dec_value node_len node_body node_wire].
@@ -1816,7 +2078,7 @@ Definition proto_str (T0: ty) : ty := match base_of T0 with TStr n => TStr n | _
 
 Lemma string_value : forall f T0 cd fl acc n fuel bs,
   (cd = DcOcts \/ cd = DcStr) ->
-  (forall ts b, create (Some T0) (proto_str T0) ts (VOcts b) = Ret (DV T0 (VOcts b))) -> df_constructed fl = true ->
+  (forall ts, create (Some T0) (proto_str T0) ts (VOcts bs) = Ret (DV T0 (VOcts bs))) -> df_constructed fl = true ->
   nok f n -> segments fuel (as_univ 4 n) = Some bs ->
   consumes (dec_value (dec_call BER f) f cd fl (Some T0) (node_wire n :: acc) (node_len n) false) (node_body n) (DV T0 (VOcts bs)).
 Proof.
@@ -1832,7 +2094,8 @@ Proof.
   - destruct (segments_inv _ _ _ Hseg) as [(c0 & raw0 & E & ->)|(i & kids & raw0 & l & fuel' & E & _)]; [|discriminate E].
     inversion E; subst c0 raw0. destruct Hok as (Hsh & Ho & Hfit).
     cbn [node_len node_body node_wire].
-    apply octets_prim_value; [intros b; apply Hcreate|reflexivity|apply (fits_of_body f _ Hfit Hsh)].
+    apply (octets_prim_value f T0 (proto_str T0) fl _ false (fun b => b = contents) (fun b Hb => eq_ind_r (fun x => create (Some T0) (proto_str T0) _ (VOcts x) = Ret (DV T0 (VOcts x))) (Hcreate _) Hb));
+      [reflexivity|apply (fits_of_body f _ Hfit Hsh)|reflexivity].
   - destruct (segments_inv _ _ _ Hseg) as [(c0 & raw0 & E & _)|(i & kids0 & raw0 & l & fuel' & E & _ & Hall & ->)]; [discriminate E|].
     inversion E; subst i kids0 raw0. clear E.
     destruct (nok_kids _ _ _ _ _ _ Hok) as (f' & -> & Hcnt & Hkids).
@@ -1843,20 +2106,20 @@ Proof.
     cbn [node_len node_body node_wire]. unfold kids_raw.
     rewrite <- (map_length node_raw kids) in Hcnt.
     destruct indef.
-    + apply (octets_indef_value (S (S f')) T0 (proto_str T0) _ (fun b => Hcreate _ b) (S f') _ _ eq_refl HF). lia.
+    + apply (octets_indef_value (S (S f')) T0 (proto_str T0) _ (fun b => b = concat l) (fun b Hb => eq_ind_r (fun x => create (Some T0) (proto_str T0) _ (VOcts x) = Ret (DV T0 (VOcts x))) (Hcreate _) Hb) (S f') _ _ eq_refl HF); [lia|reflexivity].
     + rewrite app_nil_r.
-      apply (octets_def_value (S (S f')) T0 (proto_str T0) fl (mkTag c true num :: acc) false (fun b => Hcreate _ b) Hfl _ _ eq_refl HF). lia.
+      apply (octets_def_value (S (S f')) T0 (proto_str T0) fl (mkTag c true num :: acc) false (fun b => b = concat l) (fun b Hb => eq_ind_r (fun x => create (Some T0) (proto_str T0) _ (VOcts x) = Ret (DV T0 (VOcts x))) (Hcreate _) Hb) Hfl _ _ eq_refl HF); [lia|reflexivity].
 Qed.
 
 Lemma item_octs : item_ok TOcts.
 Proof.
-  intros T0 acc e n a f allow L Htb Hbase Hkeys He Hok Heoc Hsafe HL Hint.
+  intros sp T0 acc e n a f allow L Hsp Htb Hbase Hkeys He Hok Heoc Hsafe HL Hint.
   destruct (interp_octs _ _ _ Hint) as (bs & Hsame & Hseg & ->).
   exists (VOcts bs). split; [|reflexivity].
-  apply (base_item T0 acc e (Univ, 4) _ f allow DcOcts (mkDecFlags true (Some KOcts)) _ Htb); try assumption.
+  apply (base_item sp T0 acc e (Univ, 4) _ f allow DcOcts (mkDecFlags true (Some KOcts)) _ Hsp Htb); try assumption.
   - rewrite Hbase. reflexivity.
   - apply (string_value f T0 DcOcts _ acc n (S (length (node_raw n))) bs (or_introl eq_refl)); [|reflexivity|exact Hok|exact Hseg].
-    intros ts b. unfold proto_str, create. rewrite Hbase. reflexivity.
+    intros ts. unfold proto_str, create. rewrite Hbase. reflexivity.
 Qed.
 
 Lemma str_ok_latin1 n b : latin1 n = true -> str_octets_ok n b = Some true.
@@ -1871,27 +2134,74 @@ Proof.
   repeat (apply orb_true_iff in H; destruct H as [H|H]); try discriminate H; apply N.eqb_eq in H; subst n; reflexivity.
 Qed.
 
-Lemma item_str u : latin1 u = true -> item_ok (TStr u).
+Lemma str_ok_ascii n b : ascii_str n = true -> ascii b = true -> str_octets_ok n b = Some true.
 Proof.
-  intros Hu T0 acc e n a f allow L Htb Hbase Hkeys He Hok Heoc Hsafe HL Hint.
+  unfold ascii_str, ascii. cbn [existsb]. intros H Hb.
+  repeat (apply orb_true_iff in H; destruct H as [H|H]); try discriminate H; apply N.eqb_eq in H; subst n;
+    unfold str_octets_ok; cbv zeta; rewrite Hb; reflexivity.
+Qed.
+
+Lemma by_type_ascii n : ascii_str n = true -> by_type BER (TStr n) = Some (DcStr, mkDecFlags true (Some (KStr n))).
+Proof.
+  unfold ascii_str. cbn [existsb]. intros H.
+  repeat (apply orb_true_iff in H; destruct H as [H|H]); try discriminate H; apply N.eqb_eq in H; subst n; reflexivity.
+Qed.
+
+Lemma ascii_app a b : ascii (a ++ b) = ascii a && ascii b.
+Proof. apply forallb_app. Qed.
+
+Lemma leaves_ascii_as_univ u n : leaves_ascii (as_univ u n) = leaves_ascii n.
+Proof. destruct n; reflexivity. Qed.
+
+(* the octets joined from segments whose primitive leaves are ASCII are ASCII *)
+Lemma segments_ascii : forall n fuel bs, segments fuel n = Some bs -> leaves_ascii n = true -> ascii bs = true.
+Proof.
+  induction n as [c num contents raw|c num indef kids raw IH] using node_ind'; intros fuel bs Hseg Hl.
+  - destruct (segments_inv _ _ _ Hseg) as [(c0 & raw0 & E & ->)|(i & kids & raw0 & l & fuel' & E & _)]; [|discriminate E].
+    inversion E; subst. exact Hl.
+  - destruct (segments_inv _ _ _ Hseg) as [(c0 & raw0 & E & _)|(i & kids0 & raw0 & l & fuel' & E & _ & Hall & ->)]; [discriminate E|].
+    inversion E; subst c num i kids0 raw0. clear E Hseg. cbn [leaves_ascii] in Hl.
+    pose proof (opt_all_Forall2 _ _ _ Hall) as HF. clear Hall.
+    induction HF as [|k b kids l Hk HF IHF]; [reflexivity|].
+    inversion IH as [|? ? IHk IHr]; subst. cbn [forallb] in Hl. apply andb_true_iff in Hl. destruct Hl as [Hl1 Hl2].
+    cbn [concat]. rewrite ascii_app, (IHk fuel' b Hk Hl1), (IHF IHr Hl2). reflexivity.
+Qed.
+
+Lemma safe_ascii L n : safe L n = true -> memk (KA, key (node_wire n)) L = true -> leaves_ascii n = true.
+Proof.
+  intros Hs Hm. destruct n as [c num contents raw|c num indef kids raw]; unfold key in Hm; cbn [node_wire tcls tnum] in Hm;
+    cbn [safe leaves_ascii] in *; rewrite Hm in Hs; cbn [negb orb] in Hs.
+  - apply andb_true_iff in Hs. tauto.
+  - apply andb_true_iff in Hs. destruct Hs as [Hs _]. apply andb_true_iff in Hs. tauto.
+Qed.
+
+Lemma item_str u : (latin1 u || ascii_str u)%bool = true -> item_ok (TStr u).
+Proof.
+  intros Hu sp T0 acc e n a f allow L Hsp Htb Hbase Hkeys He Hok Heoc Hsafe HL Hint.
   destruct (interp_str _ _ _ _ Hint) as (bs & Hsame & Hseg & ->).
   exists (VOcts bs). split; [|reflexivity].
-  apply (base_item T0 acc e (Univ, u) _ f allow DcStr (mkDecFlags true (Some (KStr u))) _ Htb); try assumption.
-  - rewrite Hbase. apply by_type_latin1. exact Hu.
+  apply (base_item sp T0 acc e (Univ, u) _ f allow DcStr (mkDecFlags true (Some (KStr u))) _ Hsp Htb); try assumption.
+  - rewrite Hbase. apply orb_true_iff in Hu. destruct Hu as [Hu|Hu]; [apply by_type_latin1|apply by_type_ascii]; exact Hu.
   - apply (string_value f T0 DcStr _ acc n (S (length (node_raw n))) bs (or_intror eq_refl)); [|reflexivity|exact Hok|exact Hseg].
-    intros ts b. unfold proto_str, create. rewrite Hbase. cbn [base_of]. rewrite (str_ok_latin1 u b Hu). reflexivity.
+    intros ts. unfold proto_str, create. rewrite Hbase. cbn [base_of].
+    destruct (latin1 u) eqn:El.
+    + rewrite (str_ok_latin1 u bs El). reflexivity.
+    + cbn [orb] in Hu. rewrite (str_ok_ascii u bs Hu); [reflexivity|].
+      apply (segments_ascii (as_univ 4 n) _ bs Hseg). rewrite leaves_ascii_as_univ.
+      apply (safe_ascii L n Hsafe). rewrite (same_tag_key _ _ Hsame). apply HL.
+      cbn [side_keys]. rewrite Hu. left. reflexivity.
 Qed.
 
 (* ---------- BIT STRING under the guiding type's own tags ---------- *)
 
 Lemma item_bits : item_ok TBits.
 Proof.
-  intros T0 acc e n a f allow L Htb Hbase Hkeys He Hok Heoc Hsafe HL Hint.
+  intros sp T0 acc e n a f allow L Hsp Htb Hbase Hkeys He Hok Heoc Hsafe HL Hint.
   destruct (interp_bits _ _ _ Hint) as (l & bs & Hsame & Hseg & Hjoin & ->).
   exists (VBits bs). split; [|reflexivity].
-  assert (HL3: existsb (tag_pair_eqb (Univ, 3)) L = true) by (apply HL; left; reflexivity).
-  assert (HLe: existsb (tag_pair_eqb (orkey e (Univ, 3))) L = true) by (apply HL; right; left; reflexivity).
-  apply (base_item T0 acc e (Univ, 3) _ f allow DcBits (mkDecFlags true (Some KBits)) _ Htb); try assumption.
+  assert (HL3: memk (KB, (Univ, 3)) L = true) by (apply HL; left; reflexivity).
+  assert (HLe: memk (KB, orkey e (Univ, 3)) L = true) by (apply HL; right; left; reflexivity).
+  apply (base_item sp T0 acc e (Univ, 3) _ f allow DcBits (mkDecFlags true (Some KBits)) _ Hsp Htb); try assumption.
   - rewrite Hbase. reflexivity.
   - destruct n as [c num contents raw|c num indef kids raw]; cbn [as_univ] in Hseg.
     + destruct (bit_segments_inv _ _ _ Hseg) as [(u & c0 & raw0 & E & Hu & ->)|(i & kids & raw0 & ls & fuel' & E & _)]; [|discriminate E].
@@ -1933,16 +2243,16 @@ Lemma abs_exp t x v : abs (TExp t x) v = abs x v. Proof. destruct v; reflexivity
 
 Lemma item_imp t x : non_univ t = true -> item_ok x -> item_ok (TImp t x).
 Proof.
-  intros Ht IH T0 acc e n a f allow L Htb Hbase Hkeys He Hok Heoc Hsafe HL Hint.
+  intros Ht IH sp T0 acc e n a f allow L Hsp Htb Hbase Hkeys He Hok Heoc Hsafe HL Hint.
   rewrite interp_imp in Hint.
-  destruct (IH T0 acc (Some (orkey e (key t))) n a f allow L Htb Hbase Hkeys) as (v & Hc & Ha); try assumption.
+  destruct (IH sp T0 acc (Some (orkey e (key t))) n a f allow L Hsp Htb Hbase Hkeys) as (v & Hc & Ha); try assumption.
   - destruct e as [k0|]; [exact He|]. cbn [orkey e_ok key fst]. apply non_univ_cls. exact Ht.
   - exists v. split; [exact Hc|]. rewrite abs_imp. exact Ha.
 Qed.
 
 Lemma item_exp t x : non_univ t = true -> item_ok x -> item_ok (TExp t x).
 Proof.
-  intros Ht IH T0 acc e n a f allow L Htb Hbase Hkeys He Hok Heoc Hsafe HL Hint.
+  intros Ht IH sp T0 acc e n a f allow L Hsp Htb Hbase Hkeys He Hok Heoc Hsafe HL Hint.
   destruct (interp_exp _ _ _ _ _ Hint) as (c & num & i & k & raw & -> & Hsame & Hint').
   destruct (nok_kids _ _ _ _ _ _ Hok) as (f' & -> & Hcnt & Hkids).
   inversion Hkids as [|? ? (Hnk & Hke & Hkl) _]; subst.
@@ -1955,16 +2265,12 @@ Proof.
   cbn [kets] in Hkeys.
   assert (Hkeys': keys (tagset_of' T0) = kets x None ++ keys (mkTag c true num :: acc)).
   { rewrite Hkeys, <- app_assoc. cbn [keys map app]. unfold key at 2. cbn [tcls tnum]. rewrite Hkey. reflexivity. }
-  destruct (IH T0 (mkTag c true num :: acc) None k a (S f') i L Htb Hbase Hkeys' I
+  destruct (IH sp T0 (mkTag c true num :: acc) None k a (S f') i L Hsp Htb Hbase Hkeys' I
               (nok_mono _ _ _ Hnk (Nat.le_succ_diag_r f')) Hke Hsk1 HL Hint') as (v & Hcons & Ha).
   exists v. split; [|rewrite abs_exp; exact Ha].
   destruct Hok as (Hsh & Ho & Hfit).
-  assert (Hmis: tagset_eqb (mkTag c true num :: acc) (tagset_of' T0) = false).
-  { apply tagset_eqb_keys_false. intros E.
-    apply (f_equal (@length _)) in Hkeys'. unfold keys in Hkeys'. rewrite app_length, !map_length in Hkeys'.
-    pose proof (kets_nonempty x None) as Hne. destruct (kets x None); [congruence|]. cbn [length] in *. lia. }
-  apply (item_of_explicit (S f') T0 acc c num i k raw allow (DV T0 v) Hsh Hfit Heoc Hmis
-           (plain_map_contains T0 _ (plain_of_tagged T0 Htb) Hmis) Hc I Hcons).
+  apply (item_of_explicit_sp (S f') sp T0 acc c num i k raw allow (DV T0 v) (kets x None) Hsh Hfit Heoc Hsp Hkeys'
+           (kets_nonempty x None) Hc I Hcons).
 Qed.
 
 (* ---------- SEQUENCE OF / SET OF ---------- *)
@@ -1991,7 +2297,7 @@ Proof.
 Qed.
 
 Lemma kids_elems t (i: bool) f' L : item_ok t -> frag t = true ->
-  (forall k, In k (bits_keys t None) -> existsb (tag_pair_eqb k) L = true) ->
+  (forall k, In k (side_keys t None) -> memk k L = true) ->
   forall kids l,
   Forall (fun k => nok f' k /\ (i = true -> eoc_start (node_raw k) = false) /\ (0 < length (node_raw k))%nat) kids ->
   Forall (fun k => safe L k = true) kids ->
@@ -2007,7 +2313,7 @@ Proof.
   - exists []. split; [constructor|reflexivity].
   - inversion Hkids as [|? ? (Hnk & Hke & Hkl) Hkr]; subst. inversion Hsk as [|? ? Hs1 Hsr]; subst.
     destruct (IHF Hkr Hsr) as (xs & HFx & Hmap).
-    destruct (IH t [] None k a (S f') i L Htb eq_refl Hkeys I (nok_mono _ _ _ Hnk (Nat.le_succ_diag_r f')) Hke Hs1 HL Hint)
+    destruct (IH (STy t) t [] None k a (S f') i L (sp_ok_sty t Htb) Htb eq_refl Hkeys I (nok_mono _ _ _ Hnk (Nat.le_succ_diag_r f')) Hke Hs1 HL Hint)
       as (v & Hc & Ha).
     exists (v :: xs). split; [|cbn [map]; rewrite Ha, Hmap; reflexivity].
     cbn [map]. constructor; [|exact HFx]. split; [exact Hc|exact Hkl].
@@ -2015,26 +2321,26 @@ Qed.
 
 Lemma item_seqof t : frag t = true -> item_ok t -> item_ok (TSeqOf t).
 Proof.
-  intros Hfr IH T0 acc e n a f allow L Htb Hbase Hkeys He Hok Heoc Hsafe HL Hint.
+  intros Hfr IH sp T0 acc e n a f allow L Hsp Htb Hbase Hkeys He Hok Heoc Hsafe HL Hint.
   destruct (interp_seqof _ _ _ _ Hint) as (c & num & i & kids & raw & l & -> & Hsame & Hall & ->).
   destruct (nok_kids _ _ _ _ _ _ Hok) as (f' & -> & Hcnt & Hkids).
   destruct (kids_elems t i f' L IH Hfr HL kids l Hkids (safe_kids _ _ _ _ _ _ Hsafe) (opt_all_Forall2 _ _ _ Hall))
     as (xs & HF & Hmap).
   exists (VList xs). split; [|cbn [abs]; rewrite Hmap; reflexivity].
-  apply (base_item T0 acc e (Univ, 16) _ (S (S f')) allow DcSeqOf (mkDecFlags true (Some KSeqOf)) _ Htb); try assumption.
+  apply (base_item sp T0 acc e (Univ, 16) _ (S (S f')) allow DcSeqOf (mkDecFlags true (Some KSeqOf)) _ Hsp Htb); try assumption.
   - rewrite Hbase. reflexivity.
   - cbn [node_wire]. apply (listof_value (S f') T0 t DcSeqOf _ acc c num i kids raw xs (or_introl eq_refl) (or_introl Hbase) HF). lia.
 Qed.
 
 Lemma item_setof t : frag t = true -> item_ok t -> item_ok (TSetOf t).
 Proof.
-  intros Hfr IH T0 acc e n a f allow L Htb Hbase Hkeys He Hok Heoc Hsafe HL Hint.
+  intros Hfr IH sp T0 acc e n a f allow L Hsp Htb Hbase Hkeys He Hok Heoc Hsafe HL Hint.
   destruct (interp_setof _ _ _ _ Hint) as (c & num & i & kids & raw & l & -> & Hsame & Hall & ->).
   destruct (nok_kids _ _ _ _ _ _ Hok) as (f' & -> & Hcnt & Hkids).
   destruct (kids_elems t i f' L IH Hfr HL kids l Hkids (safe_kids _ _ _ _ _ _ Hsafe) (opt_all_Forall2 _ _ _ Hall))
     as (xs & HF & Hmap).
   exists (VList xs). split; [|cbn [abs]; rewrite Hmap; reflexivity].
-  apply (base_item T0 acc e (Univ, 17) _ (S (S f')) allow DcSetOf (mkDecFlags true (Some KSetOf)) _ Htb); try assumption.
+  apply (base_item sp T0 acc e (Univ, 17) _ (S (S f')) allow DcSetOf (mkDecFlags true (Some KSetOf)) _ Hsp Htb); try assumption.
   - rewrite Hbase. reflexivity.
   - cbn [node_wire]. apply (listof_value (S f') T0 t DcSetOf _ acc c num i kids raw xs (or_intror eq_refl) (or_intror Hbase) HF). lia.
 Qed.
@@ -2099,7 +2405,7 @@ Qed.
 
 Lemma fields_elems (i: bool) f' L : forall fs kids az,
   Forall (fun f => item_ok (snd f)) fs -> forallb (fun f => frag (snd f)) fs = true ->
-  (forall k, In k (flat_map (fun f => bits_keys (snd f) None) fs) -> existsb (tag_pair_eqb k) L = true) ->
+  (forall k, In k (flat_map (fun f => side_keys (snd f) None) fs) -> memk k L = true) ->
   Forall (fun k => nok f' k /\ (i = true -> eoc_start (node_raw k) = false) /\ (0 < length (node_raw k))%nat) kids ->
   Forall (fun k => safe L k = true) kids ->
   fields_interp fs kids az ->
@@ -2118,7 +2424,7 @@ Proof.
     destruct (keys_kets ft Hw Htb) as (ts & Hts & _ & Hk & _).
     assert (Hkeys: keys (tagset_of' ft) = kets ft None ++ keys []).
     { rewrite (RoundTrip1.tagset_of'_ok ft ts Hts), Hk, app_nil_r. reflexivity. }
-    destruct (IH1 ft [] None k a (S f') i L Htb eq_refl Hkeys I (nok_mono _ _ _ Hnk (Nat.le_succ_diag_r f')) Hke Hs1
+    destruct (IH1 (STy ft) ft [] None k a (S f') i L (sp_ok_sty ft Htb) Htb eq_refl Hkeys I (nok_mono _ _ _ Hnk (Nat.le_succ_diag_r f')) Hke Hs1
                 (fun k0 Hk0 => HL k0 (in_or_app _ _ _ (or_introl Hk0))) Hint) as (v & Hc & Ha).
     exists (v :: xs). split.
     + cbn [map]. constructor; [|exact HFx]. split; [exact Hc|exact Hkl].
@@ -2149,7 +2455,7 @@ Qed.
 Lemma item_seq fs : forallb (fun f => is_req (fst f) && frag (snd f)) fs = true ->
   Forall (fun f => item_ok (snd f)) fs -> item_ok (TSeq fs).
 Proof.
-  intros Hfs IH T0 acc e n a f allow L Htb Hbase Hkeys He Hok Heoc Hsafe HL Hint.
+  intros Hfs IH sp T0 acc e n a f allow L Hsp Htb Hbase Hkeys He Hok Heoc Hsafe HL Hint.
   assert (Hreq: forallb (fun f => is_req (fst f)) fs = true /\ forallb (fun f => frag (snd f)) fs = true).
   { clear -Hfs. induction fs as [|x fs IHf]; [split; reflexivity|].
     cbn [forallb] in *. apply andb_true_iff in Hfs. destruct Hfs as [H1 H2]. apply andb_true_iff in H1. destruct H1 as [Ha Hb].
@@ -2160,14 +2466,924 @@ Proof.
   destruct (nok_kids _ _ _ _ _ _ Hok) as (f' & -> & Hcnt & Hkids).
   destruct (fields_elems i f' L fs kids az IH Hfrs HL Hkids (safe_kids _ _ _ _ _ _ Hsafe) Hfi) as (xs & HF & Habs).
   exists (VRec (map Some xs)). split; [|rewrite RoundTrip2.abs_seq, Habs; reflexivity].
-  apply (base_item T0 acc e (Univ, 16) _ (S (S f')) allow DcSeq (mkDecFlags true (Some KSeq)) _ Htb); try assumption.
+  apply (base_item sp T0 acc e (Univ, 16) _ (S (S f')) allow DcSeq (mkDecFlags true (Some KSeq)) _ Hsp Htb); try assumption.
   - rewrite Hbase. reflexivity.
   - cbn [node_wire]. apply (record_value (S f') T0 fs _ acc c num i kids raw xs Hbase Hreq HF).
     rewrite (fields_interp_length _ _ _ Hfi). lia.
 Qed.
 
 (* ====================================================================== *)
-(* 8. every type of the fragment                                            *)
+(* 9. tag maps of component lists (SET, runs of OPTIONAL components)          *)
+(* ====================================================================== *)
+
+(* outer_key: the outermost (class, number) of a tagged type: what the reference's may_start looks at *)
+
+Lemma kets_some_last : forall T k, exists pre, kets T (Some k) = pre ++ [k].
+Proof.
+  induction T as [| | | | | | | | n|fs IH|fs IH|t IH|t IH|alts IH| |tg x IH|tg x IH] using ty_ind'; intros k;
+    try (exists []; reflexivity).
+  - cbn [kets orkey]. apply IH.
+  - cbn [kets orkey]. exists (kets x None). reflexivity.
+Qed.
+
+Lemma kets_outer : forall T, tagged_base T = true -> first_tags T = Some [outer_key T] /\ exists pre, kets T None = pre ++ [outer_key T].
+Proof.
+  intros T Htb. destruct T; try discriminate Htb; try (split; [reflexivity|exists []; reflexivity]).
+  - split; [reflexivity|]. cbn [kets orkey]. unfold outer_key. cbn [first_tags]. apply kets_some_last.
+  - split; [reflexivity|]. cbn [kets orkey]. unfold outer_key. cbn [first_tags]. exists (kets T None). reflexivity.
+Qed.
+
+Lemma may_start_outer T k : tagged_base T = true -> may_start T k = true -> k = outer_key T.
+Proof.
+  intros Htb H. unfold may_start in H. destruct (kets_outer T Htb) as [E _]. rewrite E in H.
+  cbn [existsb] in H. rewrite orb_false_r in H. apply tag_pair_eqb_eq in H. exact H.
+Qed.
+
+Lemma may_start_outer_iff T k : tagged_base T = true -> may_start T k = true <-> k = outer_key T.
+Proof.
+  intros Htb. split; [apply may_start_outer; exact Htb|]. intros ->. unfold may_start.
+  destruct (kets_outer T Htb) as [E _]. rewrite E. cbn [existsb]. unfold tag_pair_eqb. rewrite !N.eqb_refl. reflexivity.
+Qed.
+
+(* a component type of the fragment: tag set known, outermost key last *)
+Definition comp_ok (T: ty) : Prop := frag T = true.
+
+Lemma comp_keys T : comp_ok T -> exists pre, keys (tagset_of' T) = pre ++ [outer_key T] /\ keys (tagset_of' T) = kets T None.
+Proof.
+  intros Hfr. destruct (frag_facts T Hfr) as [Hw Htb]. destruct (keys_kets T Hw Htb) as (ts & Hts & _ & Hk & _).
+  rewrite (RoundTrip1.tagset_of'_ok T ts Hts), Hk. destruct (kets_outer T Htb) as [_ [pre E]]. exists pre. split; [exact E|reflexivity].
+Qed.
+
+Lemma last_key_eq (a b: list (tclass * N)) x y : a ++ [x] = b ++ [y] -> x = y.
+Proof. intros H. apply app_inj_tail in H. tauto. Qed.
+
+(* same keys, hence same outermost key *)
+Lemma same_keys_outer T T' : comp_ok T -> comp_ok T' -> keys (tagset_of' T) = keys (tagset_of' T') -> outer_key T = outer_key T'.
+Proof.
+  intros H1 H2 E. destruct (comp_keys T H1) as (p1 & E1 & _). destruct (comp_keys T' H2) as (p2 & E2 & _).
+  rewrite E1, E2 in E. apply (last_key_eq _ _ _ _ E).
+Qed.
+
+Definition entries (fs: list ty) : list (tagset * ty) := map (fun t => (tagset_of' t, t)) fs.
+
+Lemma NoDup_map_eq {A B} (g: A -> B) (l: list A) x y : NoDup (map g l) -> In x l -> In y l -> g x = g y -> x = y.
+Proof.
+  induction l as [|a l IH]; intros Hnd Hx Hy E; [contradiction|].
+  cbn [map] in Hnd. inversion Hnd as [|? ? Hnin Hnd']; subst.
+  destruct Hx as [->|Hx]; destruct Hy as [->|Hy]; try reflexivity.
+  - exfalso. apply Hnin. rewrite E. apply in_map. exact Hy.
+  - exfalso. apply Hnin. rewrite <- E. apply in_map. exact Hx.
+  - apply IH; assumption.
+Qed.
+
+(* lookup of a tag set in the entries of a component list with distinct outermost keys *)
+Lemma find_entry : forall fs ts T0, Forall comp_ok fs -> NoDup (map outer_key fs) -> In T0 fs ->
+  keys ts = keys (tagset_of' T0) -> tm_find ts (entries fs) = Some T0.
+Proof.
+  induction fs as [|t fs IH]; intros ts T0 Hok Hnd Hin Hk; [contradiction|].
+  unfold tm_find, entries. cbn [map assoc]. inversion Hok as [|? ? Ht Hokr]; subst.
+  destruct (tagset_eqb ts (tagset_of' t)) eqn:E.
+  - apply tagset_eqb_keys in E. f_equal.
+    assert (HT0: comp_ok T0) by (rewrite Forall_forall in Hok; apply Hok; exact Hin).
+    apply (NoDup_map_eq outer_key (t :: fs) t T0 Hnd (or_introl eq_refl) Hin).
+    apply (same_keys_outer t T0 Ht HT0). congruence.
+  - destruct Hin as [->|Hin].
+    + exfalso. apply tagset_eqb_keys in Hk. rewrite Hk in E. discriminate E.
+    + cbn [map] in Hnd. inversion Hnd; subst. apply (IH ts T0 Hokr); assumption.
+Qed.
+
+Lemma find_entry_none : forall fs ts, (forall t, In t fs -> keys ts <> keys (tagset_of' t)) -> tm_find ts (entries fs) = None.
+Proof.
+  induction fs as [|t fs IH]; intros ts H; [reflexivity|].
+  unfold tm_find, entries. cbn [map assoc].
+  destruct (tagset_eqb ts (tagset_of' t)) eqn:E.
+  - apply tagset_eqb_keys in E. exfalso. apply (H t (or_introl eq_refl) E).
+  - apply IH. intros t' Ht'. apply H. right. exact Ht'.
+Qed.
+
+(* the tag map computed for such a list is just its entries: nothing overridden, nothing postponed *)
+Lemma filter_entries_id fs ts : (forall t, In t fs -> keys (tagset_of' t) <> keys ts) ->
+  filter (fun e : tagset * ty => negb (tagset_eqb (fst e) ts)) (entries fs) = entries fs.
+Proof.
+  induction fs as [|t fs IH]; intros H; [reflexivity|].
+  unfold entries. cbn [map filter fst].
+  destruct (tagset_eqb (tagset_of' t) ts) eqn:E.
+  - apply tagset_eqb_keys in E. exfalso. apply (H t (or_introl eq_refl) E).
+  - cbn [negb]. f_equal. apply IH. intros t' Ht'. apply H. right. exact Ht'.
+Qed.
+
+Lemma comp_plain T : comp_ok T -> tagmap_of T = mkTmap [(tagset_of' T, T)] [] None false.
+Proof. intros H. apply (plain_of_tagged T). apply (frag_facts T H). Qed.
+
+Lemma distinct_keys_of_outer fs t : Forall comp_ok fs -> comp_ok t -> ~ In (outer_key t) (map outer_key fs) ->
+  forall t', In t' fs -> keys (tagset_of' t') <> keys (tagset_of' t).
+Proof.
+  intros Hok Ht Hnin t' Ht' E. apply Hnin. rewrite Forall_forall in Hok.
+  rewrite <- (same_keys_outer t' t (Hok t' Ht') Ht E). apply in_map. exact Ht'.
+Qed.
+
+Lemma combine_maps_entries unique : forall fs done,
+  Forall comp_ok (done ++ fs) -> NoDup (map outer_key (done ++ fs)) ->
+  combine_maps unique (map (fun t => (tagmap_of t, t)) fs) (mkTmap (entries done) [] None false)
+  = mkTmap (entries (done ++ fs)) [] None false.
+Proof.
+  induction fs as [|t fs IH]; intros done Hok Hnd.
+  - rewrite app_nil_r. reflexivity.
+  - cbn [map combine_maps].
+    assert (Ht: comp_ok t) by (rewrite Forall_forall in Hok; apply Hok; apply in_or_app; right; left; reflexivity).
+    assert (Hdone: Forall comp_ok done) by (apply Forall_app in Hok; tauto).
+    assert (Hnin: ~ In (outer_key t) (map outer_key done)).
+    { rewrite map_app in Hnd. cbn [map] in Hnd. apply NoDup_remove_2 in Hnd. intros Hc. apply Hnd. apply in_or_app. left. exact Hc. }
+    pose proof (distinct_keys_of_outer done t Hdone Ht Hnin) as Hdist.
+    rewrite (comp_plain t Ht). cbn [tm_present tm_skip tm_default tm_postponed fold_left fst existsb app].
+    rewrite (filter_entries_id done (tagset_of' t) Hdist).
+    rewrite (find_entry_none done (tagset_of' t)) by (intros t' Ht' E; apply (Hdist t' Ht'); symmetry; exact E).
+    rewrite !orb_false_r, andb_false_r.
+    replace (entries done ++ [(tagset_of' t, t)]) with (entries (done ++ [t])) by (unfold entries; rewrite map_app; reflexivity).
+    cbn [orb].
+    rewrite (IH (done ++ [t])); rewrite <- ?app_assoc; try assumption. reflexivity.
+Qed.
+
+Lemma fields_tagmap_entries unique fs : Forall comp_ok fs -> NoDup (map outer_key fs) ->
+  fields_tagmap unique fs = mkTmap (entries fs) [] None false.
+Proof. intros Hok Hnd. unfold fields_tagmap, empty_tmap. apply (combine_maps_entries unique fs [] Hok Hnd). Qed.
+
+Lemma app_same_length_nil {A} (pre x: list A) : pre ++ x = x -> pre = [].
+Proof. intros H. apply (f_equal (@length _)) in H. rewrite app_length in H. destruct pre; [reflexivity|cbn [length] in H; lia]. Qed.
+
+(* a tag map of components as a spec: resolves to the component whose tags are read *)
+Lemma sp_ok_map unique fs T0 : Forall comp_ok fs -> NoDup (map outer_key fs) -> In T0 fs ->
+  sp_ok (SMap (fields_tagmap unique fs)) T0.
+Proof.
+  intros Hok Hnd Hin. rewrite (fields_tagmap_entries unique fs Hok Hnd).
+  assert (HT0: comp_ok T0) by (rewrite Forall_forall in Hok; apply Hok; exact Hin).
+  split.
+  - intros rec f ts len sfun cd fl Hk Hby. unfold dispatch, tm_get. cbn [tm_postponed tm_present tm_default].
+    rewrite (find_entry fs ts T0 Hok Hnd Hin Hk). cbn [lift pbind]. rewrite Hby. destruct len; reflexivity.
+  - intros rec f t acc len pre Hk Hpre Hcon Hcls. unfold dispatch, tm_get. cbn [tm_postponed tm_present tm_default].
+    rewrite (find_entry_none fs (t :: acc)).
+    + cbn [lift pbind]. rewrite Hcon. cbn [andb]. destruct (tcls t); try congruence; destruct len; reflexivity.
+    + intros t' Ht' E.
+      assert (Ht'ok: comp_ok t') by (rewrite Forall_forall in Hok; apply Hok; exact Ht').
+      destruct (comp_keys t' Ht'ok) as (q & Eq & _). destruct (comp_keys T0 HT0) as (p0 & Ep & _).
+      assert (Eo: outer_key T0 = outer_key t').
+      { rewrite Hk, E, Eq, app_assoc in Ep. symmetry. apply (last_key_eq _ _ _ _ Ep). }
+      assert (Et: t' = T0) by (apply (NoDup_map_eq outer_key fs t' T0 Hnd Ht' Hin); congruence).
+      subst t'. rewrite <- E in Hk. apply Hpre. apply (app_same_length_nil _ _ (eq_sym Hk)).
+Qed.
+
+Fixpoint numbered (i: nat) (fs: list ty) : list (tagset * nat) :=
+  match fs with [] => [] | t :: r => (tagset_of' t, i) :: numbered (S i) r end.
+
+Lemma numbered_app : forall a b i, numbered i (a ++ b) = numbered i a ++ numbered (i + length a) b.
+Proof.
+  induction a as [|t a IH]; intros b i; [cbn; rewrite Nat.add_0_r; reflexivity|].
+  cbn [app numbered length]. rewrite IH. replace (S i + length a)%nat with (i + S (length a))%nat by lia. reflexivity.
+Qed.
+
+Lemma assoc_numbered_none : forall fs i ts, (forall t, In t fs -> keys ts <> keys (tagset_of' t)) ->
+  assoc tagset_eqb ts (numbered i fs) = None.
+Proof.
+  induction fs as [|t fs IH]; intros i ts H; [reflexivity|]. cbn [numbered assoc].
+  destruct (tagset_eqb ts (tagset_of' t)) eqn:E.
+  - apply tagset_eqb_keys in E. exfalso. apply (H t (or_introl eq_refl) E).
+  - apply IH. intros t' Ht'. apply H. right. exact Ht'.
+Qed.
+
+Lemma assoc_numbered : forall fs i T0 j, Forall comp_ok fs -> NoDup (map outer_key fs) -> nth_error fs j = Some T0 ->
+  assoc tagset_eqb (tagset_of' T0) (numbered i fs) = Some (i + j)%nat.
+Proof.
+  induction fs as [|t fs IH]; intros i T0 j Hok Hnd Hn; [destruct j; discriminate Hn|].
+  cbn [numbered assoc]. inversion Hok as [|? ? Ht Hokr]; subst. cbn [map] in Hnd. inversion Hnd as [|? ? Hnin Hndr]; subst.
+  destruct j as [|j].
+  - cbn in Hn. inversion Hn; subst. rewrite tagset_eqb_refl. rewrite Nat.add_0_r. reflexivity.
+  - cbn [nth_error] in Hn. pose proof (nth_error_In _ _ Hn) as Hin.
+    destruct (tagset_eqb (tagset_of' T0) (tagset_of' t)) eqn:E.
+    + apply tagset_eqb_keys in E. exfalso. apply Hnin.
+      assert (HT0: comp_ok T0) by (rewrite Forall_forall in Hokr; apply Hokr; exact Hin).
+      rewrite <- (same_keys_outer T0 t HT0 Ht E). apply in_map. exact Hin.
+    + rewrite (IH (S i) T0 j Hokr Hndr Hn). f_equal. lia.
+Qed.
+
+Lemma tag_to_pos_numbered : forall fs done,
+  Forall comp_ok (done ++ fs) -> NoDup (map outer_key (done ++ fs)) ->
+  tag_to_pos fs (length done) (numbered 0 done) = Some (numbered 0 (done ++ fs)).
+Proof.
+  induction fs as [|t fs IH]; intros done Hok Hnd.
+  - rewrite app_nil_r. reflexivity.
+  - cbn [tag_to_pos].
+    assert (Ht: comp_ok t) by (rewrite Forall_forall in Hok; apply Hok; apply in_or_app; right; left; reflexivity).
+    assert (Hdone: Forall comp_ok done) by (apply Forall_app in Hok; tauto).
+    assert (Hnin: ~ In (outer_key t) (map outer_key done)).
+    { rewrite map_app in Hnd. cbn [map] in Hnd. apply NoDup_remove_2 in Hnd. intros Hc. apply Hnd. apply in_or_app. left. exact Hc. }
+    pose proof (distinct_keys_of_outer done t Hdone Ht Hnin) as Hdist.
+    rewrite (comp_plain t Ht). cbn [tm_postponed tm_present map fst existsb].
+    rewrite (assoc_numbered_none done 0 (tagset_of' t)) by (intros t' Ht' E; apply (Hdist t' Ht'); symmetry; exact E).
+    cbn [orb].
+    replace (numbered 0 done ++ [(tagset_of' t, length done)]) with (numbered 0 (done ++ [t]))
+      by (rewrite numbered_app; reflexivity).
+    replace (S (length done)) with (length (done ++ [t])) by (rewrite app_length; cbn [length]; lia).
+    rewrite (IH (done ++ [t])); rewrite <- ?app_assoc; try assumption. reflexivity.
+Qed.
+
+Lemma position_entries fs T0 j : Forall comp_ok fs -> NoDup (map outer_key fs) -> nth_error fs j = Some T0 ->
+  position_by_type fs (tagset_of' T0) = Ok j.
+Proof.
+  intros Hok Hnd Hn. unfold position_by_type.
+  change (tag_to_pos fs 0 []) with (tag_to_pos fs (length (@nil ty)) (numbered 0 [])).
+  rewrite (tag_to_pos_numbered fs [] Hok Hnd). cbn [app]. rewrite (assoc_numbered fs 0 T0 j Hok Hnd Hn). reflexivity.
+Qed.
+
+(* ====================================================================== *)
+(* 10. SET: members in any order                                            *)
+(* ====================================================================== *)
+
+Section SetLoop.
+  Variable rec : spec -> tagset -> option (option N) -> bool -> bool -> proc dval.
+  Variable lf : nat.
+  Variable fs : list (presence * ty).
+  Let m := fields_tagmap true (map snd fs).
+
+  (* the members as the decoder meets them: each resolved through the tag map, placed by its type *)
+  Inductive set_steps (allow: bool) : list bytes -> list (option val) -> list (option val) -> Prop :=
+  | ss_nil vs : set_steps allow [] vs vs
+  | ss_cons p parts j ft v vs vs' :
+      member rec (SMap m) allow false p (DV ft v) ->
+      position_by_type (map snd fs) (effective_tagset (S lf) ft v) = Ok j -> (j < length fs)%nat ->
+      set_steps allow parts (set_nth j (Some v) vs) vs' ->
+      set_steps allow (p :: parts) vs vs'.
+
+  Hypothesis Hne : (match fs with [] => true | _ => false end) = false.
+
+  Lemma set_loop_run T : forall parts vs vs', set_steps false parts vs vs' ->
+    forall n idx start total s tl,
+      (length parts < n)%nat -> avail s = concat parts ++ tl -> (start <= pos s)%nat ->
+      (pos s - start + length (concat parts) = total)%nat -> required_seen fs vs' = true ->
+      exists s', resume (record_loop rec lf T fs true (Some (N.of_nat total)) start n idx vs 0%nat) s
+                 = inr (Ok (DV T (VRec vs')), s')
+        /\ pos s' = (pos s + length (concat parts))%nat /\ arrived s' = arrived s /\ closed s' = closed s.
+  Proof.
+    intros parts vs vs' HS.
+    induction HS as [vs|p parts j ft v vs vs' [Hp Hpl] Hpos Hj HS IH]; intros n idx start total s tl Hn Hav Hst Htot Hreq.
+    - destruct n as [|n']; [cbn [length] in Hn; lia|].
+      cbn [record_loop]. cbv zeta. rewrite resume_tell. cbn [concat length] in Htot.
+      destruct (N.ltb_spec (N.of_nat (pos s - start)) (N.of_nat total)) as [Hlt|_]; [lia|].
+      cbn [negb]. rewrite Hne, Hreq. cbn [resume]. exists s. cbn [concat length]. repeat split. lia.
+    - destruct n as [|n']; [cbn [length] in Hn; lia|].
+      cbn [record_loop]. cbv zeta. rewrite resume_tell.
+      cbn [concat] in Htot, Hav. rewrite app_length in Htot.
+      destruct (N.ltb_spec (N.of_nat (pos s - start)) (N.of_nat total)) as [_|Hge]; [|lia].
+      cbn [negb andb]. rewrite Hne. fold m.
+      rewrite <- app_assoc in Hav.
+      destruct (Hp s _ Hav) as (s1 & Hrun & Hps & Harr & Hcl).
+      rewrite (resume_pbind_done _ _ _ _ _ Hrun).
+      pose proof (consumes_avail p s _ s1 Hav Hps Harr) as Hav1.
+      unfold seq_position. cbn [negb andb]. rewrite Hpos. cbn [lift pbind].
+      destruct (Nat.leb_spec (length fs) j) as [Hc|_]; [lia|].
+      cbn [length] in Hn.
+      destruct (IH n' (S j) start total s1 tl ltac:(lia) Hav1 ltac:(lia) ltac:(lia) Hreq) as (s2 & Hrun2 & Hpos2 & Harr2 & Hcl2).
+      exists s2. rewrite Hrun2. cbn [concat]. rewrite app_length.
+      split; [reflexivity|]. split; [lia|]. split; congruence.
+  Qed.
+
+  Hypothesis rec_eoo : forall sp acc sfun s tl, avail s = 0 :: 0 :: tl ->
+    resume (rec sp acc None true sfun) s = inr (Ok DEoo, adv s 2).
+
+  Lemma set_indef_loop_run T : forall parts vs vs', set_steps true parts vs vs' ->
+    forall n idx start s tl,
+      (length parts < n)%nat -> avail s = concat parts ++ [0; 0] ++ tl -> required_seen fs vs' = true ->
+      exists s', resume (record_loop rec lf T fs true None start n idx vs 0%nat) s
+                 = inr (Ok (DV T (VRec vs')), s')
+        /\ pos s' = (pos s + (length (concat parts) + 2))%nat /\ arrived s' = arrived s /\ closed s' = closed s.
+  Proof.
+    intros parts vs vs' HS.
+    induction HS as [vs|p parts j ft v vs vs' [Hp Hpl] Hpos Hj HS IH]; intros n idx start s tl Hn Hav Hreq.
+    - destruct n as [|n']; [cbn [length] in Hn; lia|].
+      cbn [record_loop]. cbv zeta. rewrite resume_tell. cbn [negb andb]. rewrite Hne. fold m.
+      cbn [concat app] in Hav.
+      rewrite (resume_pbind_done _ _ _ _ _ (rec_eoo _ _ _ s tl Hav)). rewrite Hreq. cbn [resume].
+      exists (adv s 2). cbn [concat length]. repeat split.
+    - destruct n as [|n']; [cbn [length] in Hn; lia|].
+      cbn [record_loop]. cbv zeta. rewrite resume_tell. cbn [negb andb]. rewrite Hne. fold m.
+      cbn [concat] in Hav. rewrite <- app_assoc in Hav.
+      destruct (Hp s _ Hav) as (s1 & Hrun & Hps & Harr & Hcl).
+      rewrite (resume_pbind_done _ _ _ _ _ Hrun).
+      pose proof (consumes_avail p s _ s1 Hav Hps Harr) as Hav1.
+      unfold seq_position. cbn [negb andb]. rewrite Hpos. cbn [lift pbind].
+      destruct (Nat.leb_spec (length fs) j) as [Hc|_]; [lia|].
+      cbn [length] in Hn.
+      destruct (IH n' (S j) start s1 tl ltac:(lia) Hav1 Hreq) as (s2 & Hrun2 & Hpos2 & Harr2 & Hcl2).
+      exists s2. rewrite Hrun2. cbn [concat]. rewrite app_length.
+      split; [reflexivity|]. split; [lia|]. split; congruence.
+  Qed.
+End SetLoop.
+
+(* the reference's placement of SET members, named *)
+Definition set_pick (k: node) (slots: list (option aval)) : list (presence * ty) -> nat -> option (list (option aval)) :=
+  fix pick (fs: list (presence * ty)) (i: nat) : option (list (option aval)) :=
+    match fs with
+    | [] => None
+    | (p, ft) :: fs' =>
+        if may_start ft (node_tag k) then
+          match nth_error slots i with
+          | Some None => opt_bind (interp ft None k) (fun a => Some (set_slot i a slots))
+          | _ => None
+          end
+        else pick fs' (S i)
+    end.
+
+Definition set_place (fs: list (presence * ty)) : list node -> option (list (option aval)) -> option (list (option aval)) :=
+  fix place (kids: list node) (acc: option (list (option aval))) : option (list (option aval)) :=
+    match kids with
+    | [] => acc
+    | k :: kids' => place kids' (opt_bind acc (fun slots => set_pick k slots fs O))
+    end.
+
+Definition set_final (ps: (presence * ty) * option aval) : option (option aval) :=
+  match fst ps, snd ps with
+  | _, Some a => Some (Some a)
+  | (Opt, _), None => Some None
+  | (Def d, ft), None => Some (Some (abs ft d))
+  | (Req, _), None => None
+  end.
+
+Lemma interp_set fs e n a : interp (TSet fs) e n = Some a ->
+  exists c num i kids raw slots l, n = Cons c num i kids raw /\ same_tag (orkey e (Univ, 17)) n = true
+    /\ set_place fs kids (Some (map (fun _ => None) fs)) = Some slots
+    /\ opt_all (map set_final (combine fs slots)) = Some l /\ a = ARec l.
+Proof.
+  cbn [interp]. cbv zeta. destruct n as [|c num i kids raw]; [discriminate|].
+  change (match e with Some e0 => e0 | None => (Univ, 17) end) with (orkey e (Univ, 17)).
+  destruct (same_tag (orkey e (Univ, 17)) (Cons c num i kids raw)) eqn:E; [|discriminate]. cbn [negb].
+  intros H.
+  match type of H with opt_bind ?g _ = _ => destruct g as [slots|] eqn:El; [|discriminate H] end.
+  cbn [opt_bind] in H.
+  match type of H with opt_bind ?g _ = _ => destruct g as [l|] eqn:Ef; [|discriminate H] end.
+  cbn [opt_bind] in H.
+  exists c, num, i, kids, raw, slots, l. split; [reflexivity|]. split; [reflexivity|]. split; [exact El|]. split; [exact Ef|congruence].
+Qed.
+
+Lemma set_place_none fs : forall kids, set_place fs kids None = None.
+Proof. induction kids as [|k kids IH]; [reflexivity|]. cbn [set_place opt_bind]. exact IH. Qed.
+
+Lemma set_place_step fs k kids slots r : set_place fs (k :: kids) (Some slots) = Some r ->
+  exists slots', set_pick k slots fs O = Some slots' /\ set_place fs kids (Some slots') = Some r.
+Proof.
+  cbn [set_place opt_bind]. fold (set_place fs). intros H.
+  destruct (set_pick k slots fs 0) as [slots'|] eqn:E; [|rewrite set_place_none in H; discriminate H].
+  exists slots'. split; [reflexivity|exact H].
+Qed.
+
+Lemma set_pick_inv k slots : forall fs i0 slots', set_pick k slots fs i0 = Some slots' ->
+  exists j p ft a, nth_error fs j = Some (p, ft) /\ may_start ft (node_tag k) = true
+                   /\ interp ft None k = Some a /\ slots' = set_slot (i0 + j) a slots.
+Proof.
+  induction fs as [|[p ft] fs IH]; intros i0 slots' H; [discriminate H|].
+  cbn [set_pick] in H. destruct (may_start ft (node_tag k)) eqn:Em.
+  - destruct (nth_error slots i0) as [[|]|]; try discriminate H.
+    destruct (interp ft None k) as [a|] eqn:Ea; [|discriminate H]. cbn [opt_bind] in H. inversion H.
+    exists 0%nat, p, ft, a. rewrite Nat.add_0_r. repeat split; assumption.
+  - fold (set_pick k slots) in H. destruct (IH (S i0) slots' H) as (j & p' & ft' & a & H1 & H2 & H3 & H4).
+    exists (S j), p', ft', a. split; [exact H1|]. split; [exact H2|]. split; [exact H3|].
+    rewrite H4. f_equal. lia.
+Qed.
+
+(* decoded slots against the reference's slots *)
+Inductive slots_rel : list (presence * ty) -> list (option val) -> list (option aval) -> Prop :=
+| sr_nil : slots_rel [] [] []
+| sr_none f fs vs sl : slots_rel fs vs sl -> slots_rel (f :: fs) (None :: vs) (None :: sl)
+| sr_some f fs v vs sl : slots_rel fs vs sl -> slots_rel (f :: fs) (Some v :: vs) (Some (abs (snd f) v) :: sl).
+
+Lemma slots_rel_init fs : slots_rel fs (map (fun _ => None) fs) (map (fun _ => None) fs).
+Proof. induction fs as [|f fs IH]; [constructor|]. cbn [map]. constructor. exact IH. Qed.
+
+Lemma slots_rel_set : forall fs vs sl j p ft v, slots_rel fs vs sl -> nth_error fs j = Some (p, ft) ->
+  slots_rel fs (set_nth j (Some v) vs) (set_slot j (abs ft v) sl).
+Proof.
+  intros fs vs sl j p ft v H. revert j. induction H as [|f fs vs sl H IH|f fs v0 vs sl H IH]; intros j Hn.
+  - destruct j; discriminate Hn.
+  - destruct j as [|j]; cbn [nth_error] in Hn.
+    + inversion Hn; subst f. cbn [set_nth set_slot]. apply (sr_some (p, ft) fs v vs sl H).
+    + cbn [set_nth set_slot]. constructor. apply IH. exact Hn.
+  - destruct j as [|j]; cbn [nth_error] in Hn.
+    + inversion Hn; subst f. cbn [set_nth set_slot]. apply (sr_some (p, ft) fs v vs sl H).
+    + cbn [set_nth set_slot]. constructor. apply IH. exact Hn.
+Qed.
+
+Lemma slots_rel_final : forall fs vs sl l, slots_rel fs vs sl ->
+  opt_all (map set_final (combine fs sl)) = Some l ->
+  required_seen fs vs = true /\ RoundTrip2.abs_fields fs vs = l.
+Proof.
+  intros fs vs sl l H. revert l. unfold required_seen.
+  induction H as [|[p ft] fs vs sl H IH|[p ft] fs v0 vs sl H IH]; intros l Hf.
+  - cbn in Hf. inversion Hf. split; reflexivity.
+  - cbn [combine map opt_all] in Hf. unfold set_final at 1 in Hf. cbn [fst snd] in Hf.
+    destruct p as [| |d]; try discriminate Hf.
+    + destruct (opt_all (map set_final (combine fs sl))) as [r|] eqn:Er; [|discriminate Hf]. cbn [opt_bind] in Hf. inversion Hf; subst l.
+      destruct (IH r eq_refl) as [H1 H2]. cbn [combine forallb fst snd RoundTrip2.abs_fields]. fold RoundTrip2.abs_fields.
+      rewrite H1, H2. split; reflexivity.
+    + destruct (opt_all (map set_final (combine fs sl))) as [r|] eqn:Er; [|discriminate Hf]. cbn [opt_bind] in Hf. inversion Hf; subst l.
+      destruct (IH r eq_refl) as [H1 H2]. cbn [combine forallb fst snd RoundTrip2.abs_fields]. fold RoundTrip2.abs_fields.
+      rewrite H1, H2. split; reflexivity.
+  - cbn [combine map opt_all] in Hf. unfold set_final at 1 in Hf. cbn [fst snd] in Hf.
+    assert (Hf': opt_bind (opt_all (map set_final (combine fs sl))) (fun r' => Some (Some (abs ft v0) :: r')) = Some l).
+    { destruct p; exact Hf. }
+    destruct (opt_all (map set_final (combine fs sl))) as [r|] eqn:Er; [|discriminate Hf']. cbn [opt_bind] in Hf'. inversion Hf'; subst l.
+    destruct (IH r eq_refl) as [H1 H2]. cbn [combine forallb fst snd RoundTrip2.abs_fields]. fold RoundTrip2.abs_fields.
+    rewrite H1, H2. split; [destruct p; reflexivity|reflexivity].
+Qed.
+
+Lemma nodupb_NoDup : forall l, nodupb l = true -> NoDup l.
+Proof.
+  induction l as [|x r IH]; intros H; [constructor|].
+  cbn [nodupb] in H. apply andb_true_iff in H. destruct H as [H1 H2]. constructor; [|apply IH; exact H2].
+  intros Hin. apply negb_true_iff in H1. assert (E: existsb (tag_pair_eqb x) r = true); [|congruence].
+  apply existsb_exists. exists x. split; [exact Hin|]. unfold tag_pair_eqb. rewrite !N.eqb_refl. reflexivity.
+Qed.
+
+Lemma eff_tagset n ft v : frag ft = true -> effective_tagset (S n) ft v = tagset_of' ft.
+Proof. intros H. destruct ft; try reflexivity. discriminate H. Qed.
+
+Lemma set_steps_of_place (i: bool) f' L fs :
+  Forall (fun f => item_ok (snd f)) fs -> Forall comp_ok (map snd fs) -> NoDup (map outer_key (map snd fs)) ->
+  (forall k, In k (flat_map (fun f => side_keys (snd f) None) fs) -> memk k L = true) ->
+  forall kids slots slots' vs,
+  Forall (fun k => nok f' k /\ (i = true -> eoc_start (node_raw k) = false) /\ (0 < length (node_raw k))%nat) kids ->
+  Forall (fun k => safe L k = true) kids ->
+  set_place fs kids (Some slots) = Some slots' -> slots_rel fs vs slots ->
+  exists vs', set_steps (dec_call BER (S (S f'))) (S (S f')) fs i (map node_raw kids) vs vs' /\ slots_rel fs vs' slots'.
+Proof.
+  intros HIH Hok Hnd HL.
+  induction kids as [|k kids IHk]; intros slots slots' vs Hkids Hsk Hpl Hrel.
+  - cbn [set_place] in Hpl. inversion Hpl; subst. exists vs. split; [constructor|exact Hrel].
+  - destruct (set_place_step _ _ _ _ _ Hpl) as (slots1 & Hpick & Hpl').
+    destruct (set_pick_inv _ _ _ _ _ Hpick) as (j & p & ft & a & Hn & Hms & Hint & ->). cbn [Nat.add] in *.
+    inversion Hkids as [|? ? (Hnk & Hke & Hkl) Hkr]; subst. inversion Hsk as [|? ? Hs1 Hsr]; subst.
+    pose proof (nth_error_In _ _ Hn) as Hin.
+    assert (IH1: item_ok ft) by (rewrite Forall_forall in HIH; apply (HIH (p, ft) Hin)).
+    assert (Hnf: nth_error (map snd fs) j = Some ft) by (rewrite (map_nth_error snd j fs Hn); reflexivity).
+    pose proof (nth_error_In _ _ Hnf) as Hinf.
+    assert (Hfr: frag ft = true) by (rewrite Forall_forall in Hok; apply (Hok ft Hinf)).
+    destruct (frag_facts ft Hfr) as [Hw Htb].
+    destruct (comp_keys ft Hfr) as (_ & _ & Hk).
+    assert (Hkeys: keys (tagset_of' ft) = kets ft None ++ keys []) by (rewrite Hk, app_nil_r; reflexivity).
+    destruct (IH1 (SMap (fields_tagmap true (map snd fs))) ft [] None k a (S f') i L
+                (sp_ok_map true (map snd fs) ft Hok Hnd Hinf) Htb eq_refl Hkeys I
+                (nok_mono _ _ _ Hnk (Nat.le_succ_diag_r f')) Hke Hs1
+                (fun k0 Hk0 => HL k0 (proj2 (in_flat_map _ _ _) (ex_intro _ (p, ft) (conj Hin Hk0)))) Hint) as (v & Hc & Ha).
+    destruct (IHk (set_slot j a slots) slots' (set_nth j (Some v) vs) Hkr Hsr Hpl') as (vs' & Hst & Hrel').
+    { rewrite <- Ha. apply (slots_rel_set fs vs slots j p ft v Hrel Hn). }
+    exists vs'. split; [|exact Hrel'].
+    cbn [map]. apply (ss_cons _ _ fs i (node_raw k) (map node_raw kids) j ft v vs vs'); [split; [exact Hc|exact Hkl]| | |exact Hst].
+    + rewrite (eff_tagset _ ft v Hfr). apply (position_entries (map snd fs) ft j Hok Hnd Hnf).
+    + apply nth_error_Some. rewrite Hn. discriminate.
+Qed.
+
+Lemma set_value f' T0 fs fl acc c num i kids raw vs' :
+  base_of T0 = TSet fs -> (match fs with [] => true | _ => false end) = false ->
+  set_steps (dec_call BER (S f')) (S f') fs i (map node_raw kids) (map (fun _ => None) fs) vs' ->
+  required_seen fs vs' = true -> (length kids < S f')%nat ->
+  consumes (dec_value (dec_call BER (S f')) (S f') DcSet fl (Some T0) (mkTag c true num :: acc)
+                      (node_len (Cons c num i kids raw)) false)
+           (node_body (Cons c num i kids raw)) (DV T0 (VRec vs')).
+Proof.
+  intros Hb Hne HS Hreq Hlen.
+  assert (Hdv: forall len, dec_value (dec_call BER (S f')) (S f') DcSet fl (Some T0) (mkTag c true num :: acc) len false
+                           = dec_record (dec_call BER (S f')) (S f') T0 fs true len).
+  { intros len. cbn [dec_value tag0_cons tcon negb]. rewrite Hb. reflexivity. }
+  rewrite Hdv. clear Hdv. cbn [node_len node_body]. unfold kids_raw.
+  rewrite <- (map_length node_raw kids) in Hlen.
+  intros s tl Hav. unfold dec_record. rewrite resume_tell.
+  destruct i.
+  - rewrite <- app_assoc in Hav.
+    destruct (set_indef_loop_run (dec_call BER (S f')) (S f') fs Hne (dec_call_eoo f') T0 _ _ _ HS (S f') 0%nat (pos s) s tl Hlen Hav Hreq)
+      as (s' & Hrun & Hpos & Harr & Hcl).
+    exists s'. split; [exact Hrun|]. rewrite app_length. cbn [length]. repeat split; assumption.
+  - rewrite app_nil_r in *.
+    destruct (set_loop_run (dec_call BER (S f')) (S f') fs Hne T0 _ _ _ HS (S f') 0%nat (pos s) (length (concat (map node_raw kids))) s tl
+                Hlen Hav ltac:(lia) ltac:(lia) Hreq) as (s' & Hrun & Hpos & Harr & Hcl).
+    exists s'. split; [exact Hrun|]. repeat split; assumption.
+Qed.
+
+Lemma item_set fs : forallb (fun f => frag (snd f)) fs = true -> nodupb (map (fun f => outer_key (snd f)) fs) = true ->
+  Forall (fun f => item_ok (snd f)) fs -> item_ok (TSet fs).
+Proof.
+  intros Hfrs Hnd IH sp T0 acc e n a f allow L Hsp Htb Hbase Hkeys He Hok Heoc Hsafe HL Hint.
+  destruct (interp_set _ _ _ _ Hint) as (c & num & i & kids & raw & slots & l & -> & Hsame & Hpl & Hfin & ->).
+  destruct (nok_kids _ _ _ _ _ _ Hok) as (f' & -> & Hcnt & Hkids).
+  assert (Hcomp: Forall comp_ok (map snd fs)).
+  { apply Forall_forall. intros t Ht. apply in_map_iff in Ht. destruct Ht as (x & <- & Hx).
+    rewrite forallb_forall in Hfrs. apply (Hfrs x Hx). }
+  assert (HND: NoDup (map outer_key (map snd fs))) by (rewrite map_map; apply nodupb_NoDup; exact Hnd).
+  destruct fs as [|f0 fs0].
+  - (* no components: no members *)
+    destruct kids as [|k kids]; [|destruct (set_place_step _ _ _ _ _ Hpl) as (s1 & Hp & _); discriminate Hp].
+    cbn in Hpl, Hfin. inversion Hpl; subst slots. inversion Hfin; subst l.
+    exists (VRec []). split; [|reflexivity].
+    apply (base_item sp T0 acc e (Univ, 17) _ (S (S f')) allow DcSet (mkDecFlags true (Some KSet)) _ Hsp Htb); try assumption.
+    + rewrite Hbase. reflexivity.
+    + cbn [node_wire node_len node_body dec_value tag0_cons tcon negb]. rewrite Hbase. cbn [base_of].
+      intros s tl Hav. unfold dec_record. rewrite resume_tell. cbn [record_loop]. cbv zeta. rewrite resume_tell.
+      destruct i.
+      * cbn [negb]. cbn [kids_raw map concat app] in Hav.
+        rewrite (resume_pbind_done _ _ _ _ _ (dec_call_eoo (S f') _ _ _ s tl Hav)). cbn [resume map].
+        exists (adv s 2). repeat split.
+      * cbn [kids_raw map concat length app]. rewrite Nat.sub_diag. cbn [N.of_nat N.ltb N.compare negb resume map].
+        exists s. repeat split. lia.
+  - destruct (set_steps_of_place i f' L (f0 :: fs0) IH Hcomp HND HL kids _ slots _ Hkids (safe_kids _ _ _ _ _ _ Hsafe) Hpl
+                (slots_rel_init (f0 :: fs0))) as (vs' & HS & Hrel).
+    destruct (slots_rel_final _ _ _ _ Hrel Hfin) as [Hreq Habs].
+    exists (VRec vs'). split; [|change (abs (TSet (f0 :: fs0)) (VRec vs')) with (ARec (RoundTrip2.abs_fields (f0 :: fs0) vs')); rewrite Habs; reflexivity].
+    apply (base_item sp T0 acc e (Univ, 17) _ (S (S f')) allow DcSet (mkDecFlags true (Some KSet)) _ Hsp Htb); try assumption.
+    + rewrite Hbase. reflexivity.
+    + cbn [node_wire]. apply (set_value (S f') T0 (f0 :: fs0) _ acc c num i kids raw vs' Hbase eq_refl HS Hreq). lia.
+Qed.
+
+(* ====================================================================== *)
+(* 10b. SEQUENCE with OPTIONAL and DEFAULT components                        *)
+(* ====================================================================== *)
+
+Section SeqLoop.
+  Variable rec : spec -> tagset -> option (option N) -> bool -> bool -> proc dval.
+  Variable lf : nat.
+  Variable fs : list (presence * ty).
+  Hypothesis Hnd : forallb (fun f => is_req (fst f)) fs = false.
+
+  (* the members as the decoder meets them: at position idx under the spec of that position (the
+     component's type, or the tag map of the run of OPTIONAL components starting there), placed by type *)
+  Inductive seq_steps (allow: bool) : nat -> list bytes -> list (option val) -> nat -> list (option val) -> Prop :=
+  | sq_nil idx vs : seq_steps allow idx [] vs idx vs
+  | sq_cons idx p parts sp ft v j vs idx' vs' :
+      seq_component_spec fs false idx = Some sp ->
+      member rec sp allow false p (DV ft v) ->
+      seq_position lf fs false false idx ft v = Ok j -> (idx < length fs)%nat -> (j < length fs)%nat ->
+      seq_steps allow (S j) parts (set_nth j (Some v) vs) idx' vs' ->
+      seq_steps allow idx (p :: parts) vs idx' vs'.
+
+  Lemma fs_nonempty : (match fs with [] => true | _ => false end) = false.
+  Proof. destruct fs; [discriminate Hnd|reflexivity]. Qed.
+
+  Lemma seq_loop_run T : forall allow idx parts vs idx' vs', seq_steps allow idx parts vs idx' vs' -> allow = false ->
+    forall n start total s tl,
+      (length parts < n)%nat -> avail s = concat parts ++ tl -> (start <= pos s)%nat ->
+      (pos s - start + length (concat parts) = total)%nat -> required_seen fs vs' = true ->
+      exists s', resume (record_loop rec lf T fs false (Some (N.of_nat total)) start n idx vs 0%nat) s
+                 = inr (Ok (DV T (VRec vs')), s')
+        /\ pos s' = (pos s + length (concat parts))%nat /\ arrived s' = arrived s /\ closed s' = closed s.
+  Proof.
+    intros allow idx parts vs idx' vs' HS.
+    induction HS as [idx vs|idx p parts sp ft v j vs idx' vs' Hsp [Hp Hpl] Hpos Hidx Hj HS IH];
+      intros Ha n start total s tl Hn Hav Hst Htot Hreq; subst allow.
+    - destruct n as [|n']; [cbn [length] in Hn; lia|].
+      cbn [record_loop]. cbv zeta. rewrite resume_tell. cbn [concat length] in Htot.
+      destruct (N.ltb_spec (N.of_nat (pos s - start)) (N.of_nat total)) as [Hlt|_]; [lia|].
+      cbn [negb]. rewrite fs_nonempty, Hreq. cbn [resume]. exists s. cbn [concat length]. repeat split. lia.
+    - destruct n as [|n']; [cbn [length] in Hn; lia|].
+      cbn [record_loop]. cbv zeta. rewrite resume_tell.
+      cbn [concat] in Htot, Hav. rewrite app_length in Htot.
+      destruct (N.ltb_spec (N.of_nat (pos s - start)) (N.of_nat total)) as [_|Hge]; [|lia].
+      cbn [negb andb]. rewrite fs_nonempty, Hnd, Hsp.
+      rewrite <- app_assoc in Hav.
+      destruct (Hp s _ Hav) as (s1 & Hrun & Hps & Harr & Hcl).
+      rewrite (resume_pbind_done _ _ _ _ _ Hrun).
+      pose proof (consumes_avail p s _ s1 Hav Hps Harr) as Hav1.
+      destruct (Nat.leb_spec (length fs) idx) as [Hc|_]; [lia|].
+      rewrite Hpos. cbn [lift pbind].
+      destruct (Nat.leb_spec (length fs) j) as [Hc|_]; [lia|].
+      cbn [length] in Hn.
+      destruct (IH eq_refl n' start total s1 tl ltac:(lia) Hav1 ltac:(lia) ltac:(lia) Hreq) as (s2 & Hrun2 & Hpos2 & Harr2 & Hcl2).
+      exists s2. rewrite Hrun2. cbn [concat]. rewrite app_length.
+      split; [reflexivity|]. split; [lia|]. split; congruence.
+  Qed.
+
+  Hypothesis rec_eoo : forall sp acc sfun s tl, avail s = 0 :: 0 :: tl ->
+    resume (rec sp acc None true sfun) s = inr (Ok DEoo, adv s 2).
+
+  Lemma seq_spec_some idx : exists sp,
+    (if Nat.leb (length fs) idx then Some SNone else seq_component_spec fs false idx) = Some sp.
+  Proof.
+    destruct (Nat.leb_spec (length fs) idx) as [Hc|Hlt]; [exists SNone; reflexivity|].
+    unfold seq_component_spec. destruct (nth_error fs idx) as [[p t]|] eqn:E.
+    - destruct (false || is_req p); eexists; reflexivity.
+    - apply nth_error_None in E. lia.
+  Qed.
+
+  Lemma seq_indef_loop_run T : forall allow idx parts vs idx' vs', seq_steps allow idx parts vs idx' vs' -> allow = true ->
+    forall n start s tl,
+      (length parts < n)%nat -> avail s = concat parts ++ [0; 0] ++ tl -> required_seen fs vs' = true ->
+      exists s', resume (record_loop rec lf T fs false None start n idx vs 0%nat) s
+                 = inr (Ok (DV T (VRec vs')), s')
+        /\ pos s' = (pos s + (length (concat parts) + 2))%nat /\ arrived s' = arrived s /\ closed s' = closed s.
+  Proof.
+    intros allow idx parts vs idx' vs' HS.
+    induction HS as [idx vs|idx p parts sp ft v j vs idx' vs' Hsp [Hp Hpl] Hpos Hidx Hj HS IH];
+      intros Ha n start s tl Hn Hav Hreq; subst allow.
+    - destruct n as [|n']; [cbn [length] in Hn; lia|].
+      cbn [record_loop]. cbv zeta. rewrite resume_tell. cbn [negb andb]. rewrite fs_nonempty, Hnd.
+      destruct (seq_spec_some idx) as (sp & Esp). rewrite Esp.
+      cbn [concat app] in Hav.
+      rewrite (resume_pbind_done _ _ _ _ _ (rec_eoo _ _ _ s tl Hav)). rewrite Hreq. cbn [resume].
+      exists (adv s 2). cbn [concat length]. repeat split.
+    - destruct n as [|n']; [cbn [length] in Hn; lia|].
+      cbn [record_loop]. cbv zeta. rewrite resume_tell. cbn [negb andb]. rewrite fs_nonempty, Hnd.
+      destruct (Nat.leb_spec (length fs) idx) as [Hc|_]; [lia|]. rewrite Hsp.
+      cbn [concat] in Hav. rewrite <- app_assoc in Hav.
+      destruct (Hp s _ Hav) as (s1 & Hrun & Hps & Harr & Hcl).
+      rewrite (resume_pbind_done _ _ _ _ _ Hrun).
+      pose proof (consumes_avail p s _ s1 Hav Hps Harr) as Hav1.
+      rewrite Hpos. cbn [lift pbind].
+      destruct (Nat.leb_spec (length fs) j) as [Hc|_]; [lia|].
+      cbn [length] in Hn.
+      destruct (IH eq_refl n' start s1 tl ltac:(lia) Hav1 Hreq) as (s2 & Hrun2 & Hpos2 & Harr2 & Hcl2).
+      exists s2. rewrite Hrun2. cbn [concat]. rewrite app_length.
+      split; [reflexivity|]. split; [lia|]. split; congruence.
+  Qed.
+End SeqLoop.
+
+Definition absent_val (f: presence * ty) : option aval := match fst f with Def d => Some (abs (snd f) d) | _ => None end.
+Definition non_req (f: presence * ty) : bool := negb (is_req (fst f)).
+Definition nones {A B} (l: list A) : list (option B) := map (fun _ => None) l.
+
+Lemma seq_go_nil_kids : forall todo l, seq_go (fun ft k => interp ft None k) todo [] = Some l ->
+  forallb non_req todo = true /\ l = map absent_val todo.
+Proof.
+  induction todo as [|[p ft] todo IH]; intros l H.
+  - cbn in H. inversion H. split; reflexivity.
+  - cbn [seq_go] in H. cbv zeta in H. fold (seq_go (fun ft k => interp ft None k)) in H.
+    destruct p as [| |d]; [discriminate H| |];
+      (destruct (seq_go (fun ft k => interp ft None k) todo []) as [r|] eqn:Er; [|discriminate H]);
+      cbn [opt_bind] in H; inversion H; subst l; destruct (IH r eq_refl) as [H1 ->];
+      cbn [forallb map]; unfold non_req at 1; cbn [fst is_req negb andb]; (split; [exact H1|reflexivity]).
+Qed.
+
+Lemma seq_go_kid : forall todo k kids l, seq_go (fun ft k => interp ft None k) todo (k :: kids) = Some l ->
+  exists pre p ft todo' a r, todo = pre ++ (p, ft) :: todo' /\ forallb non_req pre = true
+    /\ may_start ft (node_tag k) = true /\ interp ft None k = Some a
+    /\ seq_go (fun ft k => interp ft None k) todo' kids = Some r /\ l = map absent_val pre ++ Some a :: r.
+Proof.
+  induction todo as [|[p ft] todo IH]; intros k kids l H; [discriminate H|].
+  cbn [seq_go] in H. cbv zeta in H. fold (seq_go (fun ft k => interp ft None k)) in H.
+  destruct (may_start ft (node_tag k)) eqn:Em.
+  - destruct (interp ft None k) as [a|] eqn:Ea; [|discriminate H].
+    destruct (seq_go (fun ft k => interp ft None k) todo kids) as [r|] eqn:Er; [|discriminate H].
+    cbn [opt_bind] in H. inversion H; subst l.
+    exists [], p, ft, todo, a, r. repeat split; assumption.
+  - destruct p as [| |d]; [discriminate H| |];
+      (destruct (seq_go (fun ft k => interp ft None k) todo (k :: kids)) as [r0|] eqn:Er; [|discriminate H]);
+      cbn [opt_bind] in H; inversion H; subst l;
+      destruct (IH k kids r0 Er) as (pre & p' & ft' & todo' & a & r & -> & Hpre & Hm & Hi & Hgo & ->).
+    + exists ((Opt, ft) :: pre), p', ft', todo', a, r. split; [reflexivity|]. split; [cbn [forallb]; rewrite Hpre; reflexivity|].
+      split; [exact Hm|]. split; [exact Hi|]. split; [exact Hgo|reflexivity].
+    + exists ((Def d, ft) :: pre), p', ft', todo', a, r. split; [reflexivity|]. split; [cbn [forallb]; rewrite Hpre; reflexivity|].
+      split; [exact Hm|]. split; [exact Hi|]. split; [exact Hgo|reflexivity].
+Qed.
+
+Lemma run_app : forall pre rest, forallb non_req pre = true -> ambiguous_run (pre ++ rest) = map snd pre ++ ambiguous_run rest.
+Proof.
+  induction pre as [|[p t] pre IH]; intros rest H; [reflexivity|].
+  cbn [forallb] in H. apply andb_true_iff in H. destruct H as [H1 H2].
+  cbn [app ambiguous_run map snd]. destruct p; [discriminate H1| |]; rewrite (IH rest H2); reflexivity.
+Qed.
+
+Lemma run_head p ft rest : exists r, ambiguous_run ((p, ft) :: rest) = ft :: r.
+Proof. cbn [ambiguous_run]. destruct p; eexists; reflexivity. Qed.
+
+Lemma run_incl : forall l t, In t (ambiguous_run l) -> In t (map snd l).
+Proof.
+  induction l as [|[p ft] l IH]; intros t H; [contradiction|].
+  cbn [ambiguous_run] in H. cbn [map snd].
+  destruct p; destruct H as [->|H]; try (left; reflexivity); try contradiction; right; apply IH; exact H.
+Qed.
+
+Lemma abs_fields_nones : forall l, RoundTrip2.abs_fields l (nones l) = map absent_val l.
+Proof.
+  induction l as [|[p ft] l IH]; [reflexivity|].
+  unfold nones in *. cbn [map RoundTrip2.abs_fields]. fold RoundTrip2.abs_fields. rewrite IH.
+  unfold absent_val at 2. cbn [fst snd]. destruct p; reflexivity.
+Qed.
+
+Lemma abs_fields_app : forall fa va fb vb, length va = length fa ->
+  RoundTrip2.abs_fields (fa ++ fb) (va ++ vb) = RoundTrip2.abs_fields fa va ++ RoundTrip2.abs_fields fb vb.
+Proof.
+  induction fa as [|[p ft] fa IH]; intros va fb vb Hl.
+  - destruct va; [|discriminate Hl]. cbn [app]. destruct fb; reflexivity.
+  - destruct va as [|ov va]; [discriminate Hl|]. cbn [length] in Hl.
+    cbn [app RoundTrip2.abs_fields]. fold RoundTrip2.abs_fields. rewrite IH by lia. reflexivity.
+Qed.
+
+Lemma required_seen_app : forall fa va fb vb, length va = length fa ->
+  required_seen (fa ++ fb) (va ++ vb) = required_seen fa va && required_seen fb vb.
+Proof.
+  unfold required_seen. induction fa as [|f fa IH]; intros va fb vb Hl.
+  - destruct va; [|discriminate Hl]. reflexivity.
+  - destruct va as [|ov va]; [discriminate Hl|]. cbn [length] in Hl.
+    cbn [app combine forallb]. rewrite IH by lia. rewrite andb_assoc. reflexivity.
+Qed.
+
+Lemma required_seen_nones : forall l, forallb non_req l = true -> required_seen l (nones l) = true.
+Proof.
+  unfold required_seen, nones. induction l as [|[p ft] l IH]; intros H; [reflexivity|].
+  cbn [forallb] in H. apply andb_true_iff in H. destruct H as [H1 H2].
+  cbn [map combine forallb fst snd]. rewrite (IH H2). destruct p; [discriminate H1|reflexivity|reflexivity].
+Qed.
+
+Lemma nones_length {A B} (l: list A) : length (@nones A B l) = length l.
+Proof. apply map_length. Qed.
+
+Lemma nones_app {A B} (a b: list A) : @nones A B (a ++ b) = nones a ++ nones b.
+Proof. apply map_app. Qed.
+
+Definition seq_runs_ok (fs: list (presence * ty)) : bool :=
+  forallb (fun idx => nodupb (map outer_key (ambiguous_run (skipn idx fs)))) (seq 0 (length fs)).
+
+Lemma skipn_app_len {A} (a b: list A) : skipn (length a) (a ++ b) = b.
+Proof. apply skipn_app_exact. Qed.
+
+Lemma in_skipn' {A} (x: A) : forall n l, In x (skipn n l) -> In x l.
+Proof.
+  induction n as [|n IH]; intros l H; [exact H|]. destruct l as [|y l]; [contradiction|].
+  cbn [skipn] in H. right. apply IH. exact H.
+Qed.
+
+Lemma seq_steps_of_go (i: bool) f' L fs :
+  forallb (fun f => is_req (fst f)) fs = false ->
+  Forall (fun f => item_ok (snd f)) fs -> Forall comp_ok (map snd fs) -> seq_runs_ok fs = true ->
+  (forall k, In k (flat_map (fun f => side_keys (snd f) None) fs) -> memk k L = true) ->
+  forall m todo, (length todo <= m)%nat -> forall done vdone kids l,
+  fs = done ++ todo -> length vdone = length done ->
+  Forall (fun k => nok f' k /\ (i = true -> eoc_start (node_raw k) = false) /\ (0 < length (node_raw k))%nat) kids ->
+  Forall (fun k => safe L k = true) kids ->
+  seq_go (fun ft k => interp ft None k) todo kids = Some l ->
+  exists vt idx', seq_steps (dec_call BER (S (S f'))) (S (S f')) fs i (length done) (map node_raw kids)
+                            (vdone ++ nones todo) idx' (vdone ++ vt)
+    /\ length vt = length todo /\ RoundTrip2.abs_fields todo vt = l /\ required_seen todo vt = true.
+Proof.
+  intros Hnd HIH Hok Hruns HL.
+  induction m as [|m IHm]; intros todo Hm done vdone kids l Hfs Hvd Hkids Hsk Hgo.
+  - destruct todo; [|cbn [length] in Hm; lia].
+    destruct kids as [|k kids]; [|discriminate Hgo]. cbn in Hgo. inversion Hgo; subst l.
+    exists [], (length done). split; [constructor|]. repeat split.
+  - destruct kids as [|k kids].
+    + destruct (seq_go_nil_kids _ _ Hgo) as [Hnr ->].
+      exists (nones todo), (length done). split; [constructor|]. split; [apply nones_length|].
+      split; [apply abs_fields_nones|apply required_seen_nones; exact Hnr].
+    + destruct (seq_go_kid _ _ _ _ Hgo) as (pre & p & ft & todo' & a & r & -> & Hpre & Hms & Hint & Hgo' & ->).
+      inversion Hkids as [|? ? (Hnk & Hke & Hkl) Hkr]; subst. inversion Hsk as [|? ? Hs1 Hsr]; subst.
+      set (fs := done ++ pre ++ (p, ft) :: todo') in *.
+      set (idx := length done).
+      assert (Hin: In (p, ft) fs) by (subst fs; apply in_or_app; right; apply in_or_app; right; left; reflexivity).
+      assert (IH1: item_ok ft) by (rewrite Forall_forall in HIH; apply (HIH (p, ft) Hin)).
+      assert (Hfr: frag ft = true).
+      { rewrite Forall_forall in Hok. apply Hok. apply in_map_iff. exists (p, ft). split; [reflexivity|exact Hin]. }
+      destruct (frag_facts ft Hfr) as [Hw Htb].
+      destruct (comp_keys ft Hfr) as (_ & _ & Hk).
+      assert (Hkeys: keys (tagset_of' ft) = kets ft None ++ keys []) by (rewrite Hk, app_nil_r; reflexivity).
+      assert (HLft: forall k0, In k0 (side_keys ft None) -> memk k0 L = true).
+      { intros k0 Hk0. apply HL. apply in_flat_map. exists (p, ft). split; [exact Hin|exact Hk0]. }
+      assert (Hskip: skipn idx fs = pre ++ (p, ft) :: todo') by (subst fs idx; apply skipn_app_len).
+      assert (Hidx: (idx < length fs)%nat) by (subst fs idx; rewrite !app_length; cbn [length]; lia).
+      (* the spec at position idx, the decoded member, its position *)
+      assert (Hmem: exists sp v, seq_component_spec fs false idx = Some sp
+                 /\ consumes (dec_call BER (S (S f')) sp [] None i false) (node_raw k) (DV ft v) /\ abs ft v = a
+                 /\ seq_position (S (S f')) fs false false idx ft v = Ok (idx + length pre)%nat).
+      { unfold seq_component_spec, seq_position. cbn [orb negb andb].
+        assert (Hhd: exists p0 ft0, nth_error fs idx = Some (p0, ft0) /\
+                       ((pre = [] /\ p0 = p /\ ft0 = ft) \/ (is_req p0 = false))).
+        { subst fs idx. rewrite nth_error_app2 by lia. rewrite Nat.sub_diag.
+          destruct pre as [|[p0 ft0] pre'].
+          - exists p, ft. split; [reflexivity|]. left. repeat split.
+          - exists p0, ft0. split; [reflexivity|]. right. cbn [forallb] in Hpre. apply andb_true_iff in Hpre.
+            destruct Hpre as [H1 _]. unfold non_req in H1. cbn [fst] in H1. apply negb_true_iff in H1. exact H1. }
+        destruct Hhd as (p0 & ft0 & Hn0 & Hcase). rewrite Hn0.
+        destruct (is_req p0) eqn:Er.
+        - destruct Hcase as [(-> & -> & ->)|Hc]; [|discriminate Hc].
+          destruct (IH1 (STy ft) ft [] None k a (S f') i L (sp_ok_sty ft Htb) Htb eq_refl Hkeys I
+                      (nok_mono _ _ _ Hnk (Nat.le_succ_diag_r f')) Hke Hs1 HLft Hint) as (v & Hc & Ha).
+          exists (STy ft), v. split; [reflexivity|]. split; [exact Hc|]. split; [exact Ha|].
+          cbn [length]. rewrite Nat.add_0_r. reflexivity.
+        - rewrite Hskip.
+          set (run := ambiguous_run (pre ++ (p, ft) :: todo')).
+          assert (Hrn: nth_error run (length pre) = Some ft).
+          { subst run. rewrite (run_app pre _ Hpre). destruct (run_head p ft todo') as (r0 & ->).
+            rewrite nth_error_app2 by (rewrite map_length; lia). rewrite map_length, Nat.sub_diag. reflexivity. }
+          assert (Hrok: Forall comp_ok run).
+          { apply Forall_forall. intros t Ht. subst run. apply run_incl in Ht. rewrite Forall_forall in Hok. apply Hok.
+            rewrite <- Hskip in Ht. apply in_map_iff in Ht. destruct Ht as (x & <- & Hx). apply in_map.
+            apply (in_skipn' x idx fs Hx). }
+          assert (Hrnd: NoDup (map outer_key run)).
+          { apply nodupb_NoDup. unfold seq_runs_ok in Hruns. rewrite forallb_forall in Hruns.
+            specialize (Hruns idx). rewrite Hskip in Hruns. apply Hruns. apply in_seq. lia. }
+          pose proof (nth_error_In _ _ Hrn) as Hrin.
+          destruct (IH1 (SMap (fields_tagmap false run)) ft [] None k a (S f') i L (sp_ok_map false run ft Hrok Hrnd Hrin) Htb eq_refl Hkeys I
+                      (nok_mono _ _ _ Hnk (Nat.le_succ_diag_r f')) Hke Hs1 HLft Hint) as (v & Hc & Ha).
+          exists (SMap (fields_tagmap false run)), v. split; [reflexivity|]. split; [exact Hc|]. split; [exact Ha|].
+          rewrite (eff_tagset _ ft v Hfr). rewrite (position_entries run ft (length pre) Hrok Hrnd Hrn). reflexivity. }
+      destruct Hmem as (sp & v & Hspec & Hcons & Ha & Hposn).
+      (* the rest *)
+      assert (Hlen': (length todo' <= m)%nat) by (rewrite !app_length in Hm; cbn [length] in Hm; lia).
+      destruct (IHm todo' Hlen' (done ++ pre ++ [(p, ft)]) (vdone ++ nones pre ++ [Some v]) kids r) as (vt' & idx' & Hst & Hlvt & Habs & Hreq).
+      { subst fs. rewrite <- !app_assoc. reflexivity. }
+      { rewrite !app_length, nones_length. cbn [length]. lia. }
+      { exact Hkr. } { exact Hsr. } { exact Hgo'. }
+      exists (nones pre ++ Some v :: vt'), idx'. split; [|split; [|split]].
+      * cbn [map]. apply (sq_cons _ _ fs i idx (node_raw k) (map node_raw kids) sp ft v (idx + length pre)%nat _ idx' _ Hspec
+                            (conj Hcons Hkl) Hposn Hidx).
+        { subst fs idx. rewrite !app_length. cbn [length]. lia. }
+        replace (set_nth (idx + length pre) (Some v) (vdone ++ nones (pre ++ (p, ft) :: todo')))
+          with ((vdone ++ nones pre ++ [Some v]) ++ nones todo').
+        { replace (S (idx + length pre)) with (length (done ++ pre ++ [(p, ft)])) by (subst idx; rewrite !app_length; cbn [length]; lia).
+          replace (vdone ++ nones pre ++ Some v :: vt') with ((vdone ++ nones pre ++ [Some v]) ++ vt') by (rewrite <- !app_assoc; reflexivity).
+          exact Hst. }
+        { rewrite nones_app. unfold nones at 4. cbn [map]. fold (@nones (presence * ty) val todo').
+          rewrite (app_assoc vdone (nones pre) (None :: nones todo')).
+          replace (idx + length pre)%nat with (length (vdone ++ nones pre)) by (subst idx; rewrite app_length, nones_length; lia).
+          rewrite RoundTrip2.set_nth_app. rewrite <- !app_assoc. reflexivity. }
+      * rewrite !app_length, nones_length. cbn [length]. lia.
+      * rewrite (abs_fields_app pre (nones pre)) by apply nones_length.
+        rewrite abs_fields_nones. cbn [RoundTrip2.abs_fields]. fold RoundTrip2.abs_fields. rewrite Ha, Habs. reflexivity.
+      * rewrite (required_seen_app pre (nones pre)) by apply nones_length.
+        rewrite (required_seen_nones pre Hpre). unfold required_seen in *. cbn [combine forallb fst snd andb]. rewrite Hreq.
+        destruct p; reflexivity.
+Qed.
+
+Lemma seq_opt_value f' T0 fs fl acc c num i kids raw vs' idx' :
+  base_of T0 = TSeq fs -> forallb (fun f => is_req (fst f)) fs = false ->
+  seq_steps (dec_call BER (S f')) (S f') fs i 0%nat (map node_raw kids) (map (fun _ => None) fs) idx' vs' ->
+  required_seen fs vs' = true -> (length kids < S f')%nat ->
+  consumes (dec_value (dec_call BER (S f')) (S f') DcSeq fl (Some T0) (mkTag c true num :: acc)
+                      (node_len (Cons c num i kids raw)) false)
+           (node_body (Cons c num i kids raw)) (DV T0 (VRec vs')).
+Proof.
+  intros Hb Hnd HS Hreq Hlen.
+  assert (Hdv: forall len, dec_value (dec_call BER (S f')) (S f') DcSeq fl (Some T0) (mkTag c true num :: acc) len false
+                           = dec_record (dec_call BER (S f')) (S f') T0 fs false len).
+  { intros len. cbn [dec_value tag0_cons tcon negb]. rewrite Hb. reflexivity. }
+  rewrite Hdv. clear Hdv. cbn [node_len node_body]. unfold kids_raw.
+  rewrite <- (map_length node_raw kids) in Hlen.
+  intros s tl Hav. unfold dec_record. rewrite resume_tell.
+  destruct i.
+  - rewrite <- app_assoc in Hav.
+    destruct (seq_indef_loop_run (dec_call BER (S f')) (S f') fs Hnd (dec_call_eoo f') T0 _ _ _ _ _ _ HS eq_refl (S f') (pos s) s tl Hlen Hav Hreq)
+      as (s' & Hrun & Hpos & Harr & Hcl).
+    exists s'. split; [exact Hrun|]. rewrite app_length. cbn [length]. repeat split; assumption.
+  - rewrite app_nil_r in *.
+    destruct (seq_loop_run (dec_call BER (S f')) (S f') fs Hnd T0 _ _ _ _ _ _ HS eq_refl (S f') (pos s) (length (concat (map node_raw kids))) s tl
+                Hlen Hav ltac:(lia) ltac:(lia) Hreq) as (s' & Hrun & Hpos & Harr & Hcl).
+    exists s'. split; [exact Hrun|]. repeat split; assumption.
+Qed.
+
+Lemma item_seq_opt fs : forallb (fun f => is_req (fst f)) fs = false ->
+  forallb (fun f => frag (snd f)) fs = true -> seq_runs_ok fs = true ->
+  Forall (fun f => item_ok (snd f)) fs -> item_ok (TSeq fs).
+Proof.
+  intros Hnd Hfrs Hruns IH sp T0 acc e n a f allow L Hsp Htb Hbase Hkeys He Hok Heoc Hsafe HL Hint.
+  destruct (interp_seq _ _ _ _ Hint) as (c & num & i & kids & raw & l & -> & Hsame & Hgo & ->).
+  destruct (nok_kids _ _ _ _ _ _ Hok) as (f' & -> & Hcnt & Hkids).
+  assert (Hcomp: Forall comp_ok (map snd fs)).
+  { apply Forall_forall. intros t Ht. apply in_map_iff in Ht. destruct Ht as (x & <- & Hx).
+    rewrite forallb_forall in Hfrs. apply (Hfrs x Hx). }
+  destruct (seq_steps_of_go i f' L fs Hnd IH Hcomp Hruns HL (length fs) fs (le_n _) [] [] kids l eq_refl eq_refl Hkids
+              (safe_kids _ _ _ _ _ _ Hsafe) Hgo) as (vt & idx' & HS & Hlvt & Habs & Hreq).
+  cbn [app length] in HS.
+  exists (VRec vt). split; [|rewrite RoundTrip2.abs_seq, Habs; reflexivity].
+  apply (base_item sp T0 acc e (Univ, 16) _ (S (S f')) allow DcSeq (mkDecFlags true (Some KSeq)) _ Hsp Htb); try assumption.
+  - rewrite Hbase. reflexivity.
+  - cbn [node_wire]. apply (seq_opt_value (S f') T0 fs _ acc c num i kids raw vt idx' Hbase Hnd HS Hreq). lia.
+Qed.
+
+(* ---------- REAL ---------- *)
+
+Lemma interp_real e n a : interp TReal e n = Some a ->
+  exists c num cs raw r, n = Prim c num cs raw /\ same_tag (orkey e (Univ, 9)) n = true
+                         /\ real_value cs = Some r /\ a = AReal r.
+Proof.
+  cbn [interp]. cbv zeta. destruct n as [c num contents raw|]; [|discriminate].
+  change (match e with Some e0 => e0 | None => (Univ, 9) end) with (orkey e (Univ, 9)).
+  destruct (same_tag (orkey e (Univ, 9)) (Prim c num contents raw)) eqn:E; [|discriminate].
+  destruct (real_value contents) as [r|] eqn:Eo; [|discriminate]. cbn [opt_bind].
+  intros H. exists c, num, contents, raw, r. split; [reflexivity|]. split; [reflexivity|]. split; [exact Eo|congruence].
+Qed.
+
+Lemma item_real : item_ok TReal.
+Proof.
+  intros sp T0 acc e n a f allow L Hsp Htb Hbase Hkeys He Hok Heoc Hsafe HL Hint.
+  destruct (interp_real _ _ _ Hint) as (c & num & cs & raw & ra & -> & Hsame & Hreal & ->).
+  destruct Hok as (Hsh & Ho & Hfit).
+  assert (Hm: real_mant_ok cs = true).
+  { cbn [safe] in Hsafe. pose proof (same_tag_key _ _ Hsame) as Hk. unfold key in Hk. cbn [node_wire tcls tnum] in Hk.
+    rewrite Hk in Hsafe. rewrite (HL (KR, orkey e (Univ, 9)) (or_introl eq_refl)) in Hsafe. cbn [negb orb] in Hsafe.
+    apply andb_true_iff in Hsafe. tauto. }
+  destruct (real_leaf cs ra (octs_body _ Hsh Ho) Hreal Hm) as (r & Hdec & Habs).
+  exists (VReal r). split; [|cbn [abs]; rewrite Habs; reflexivity].
+  apply (base_item sp T0 acc e (Univ, 9) _ f allow DcReal (mkDecFlags true (Some KReal)) _ Hsp Htb); try assumption.
+  - rewrite Hbase. reflexivity.
+  - split; [exact Hsh|split; assumption].
+  - cbn [dec_value node_len node_body node_wire].
+    apply consumes_real; [reflexivity|apply (fits_of_body f _ Hfit Hsh)|exact Hbase|exact Hdec].
+Qed.
+
+(* ====================================================================== *)
+(* 11. every type of the fragment                                            *)
 (* ====================================================================== *)
 
 Theorem all_items : forall T, frag T = true -> item_ok T.
@@ -2181,11 +3397,23 @@ Proof.
   - exact item_octs.
   - exact item_null.
   - exact item_oid.
+  - exact item_real.
   - apply item_str. exact Hfr.
-  - cbn [frag] in Hfr. apply item_seq; [exact Hfr|].
-    clear -IH Hfr. induction IH as [|x fs Hx _ IHf]; [constructor|].
-    cbn [forallb] in Hfr. apply andb_true_iff in Hfr. destruct Hfr as [H1 H2]. apply andb_true_iff in H1. destruct H1 as [_ Hb].
-    constructor; [apply Hx; exact Hb|apply IHf; exact H2].
+  - cbn [frag] in Hfr. apply andb_true_iff in Hfr. destruct Hfr as [Hfrs Hruns].
+    assert (HIH: Forall (fun f => item_ok (snd f)) fs).
+    { clear -IH Hfrs. induction IH as [|x fs Hx _ IHf]; [constructor|].
+      cbn [forallb] in Hfrs. apply andb_true_iff in Hfrs. destruct Hfrs as [H1 H2].
+      constructor; [apply Hx; exact H1|apply IHf; exact H2]. }
+    destruct (forallb (fun f => is_req (fst f)) fs) eqn:Ereq.
+    + apply item_seq; [|exact HIH].
+      clear -Ereq Hfrs. induction fs as [|x fs IHf]; [reflexivity|].
+      cbn [forallb] in *. apply andb_true_iff in Ereq. destruct Ereq as [E1 E2]. apply andb_true_iff in Hfrs. destruct Hfrs as [H1 H2].
+      rewrite E1, H1, (IHf H2 E2). reflexivity.
+    + apply item_seq_opt; assumption.
+  - cbn [frag] in Hfr. apply andb_true_iff in Hfr. destruct Hfr as [Hfrs Hnd]. apply item_set; [exact Hfrs|exact Hnd|].
+    clear -IH Hfrs. induction IH as [|x fs Hx _ IHf]; [constructor|].
+    cbn [forallb] in Hfrs. apply andb_true_iff in Hfrs. destruct Hfrs as [H1 H2].
+    constructor; [apply Hx; exact H1|apply IHf; exact H2].
   - apply item_seqof; [exact Hfr|apply IH; exact Hfr].
   - apply item_setof; [exact Hfr|apply IH; exact Hfr].
   - cbn [frag] in Hfr. apply andb_true_iff in Hfr. destruct Hfr as [H1 H2]. apply item_imp; [exact H1|apply IH; exact H2].
@@ -2195,19 +3423,55 @@ Qed.
 Lemma decode_is_decode_with c sp b : decode c sp b = decode_with c (dec_fuel sp b) sp b.
 Proof. reflexivity. Qed.
 
-(* SIDE CONDITION to drop once the library accepts 23 00: no definite-length constructed node without
+Lemma mkey_eqb_refl k : mkey_eqb k k = true.
+Proof. unfold mkey_eqb, tag_pair_eqb. rewrite !N.eqb_refl. destruct (fst k); reflexivity. Qed.
+
+Lemma memk_in k L : In k L -> memk k L = true.
+Proof. intros H. apply existsb_exists. exists k. split; [exact H|apply mkey_eqb_refl]. Qed.
+
+Lemma memk_filter_true k : forall L, memk (KB, k) (filter (fun x : mkey => fst x) L) = memk (KB, k) L.
+Proof.
+  induction L as [|[b0 k0] L IH]; [reflexivity|]. cbn [filter fst]. destruct b0.
+  - unfold memk in *. cbn [existsb]. rewrite IH. reflexivity.
+  - unfold memk in *. cbn [existsb]. rewrite IH. unfold mkey_eqb at 2. cbn [fst Bool.eqb andb orb]. reflexivity.
+Qed.
+
+Lemma memk_filter_false k : forall L, memk (KR, k) (filter (fun x : mkey => negb (fst x)) L) = memk (KR, k) L.
+Proof.
+  induction L as [|[b0 k0] L IH]; [reflexivity|]. cbn [filter fst negb]. destruct b0; cbn [negb].
+  - unfold memk in *. cbn [existsb]. rewrite IH. unfold mkey_eqb at 2. cbn [fst Bool.eqb andb orb]. reflexivity.
+  - unfold memk in *. cbn [existsb]. rewrite IH. reflexivity.
+Qed.
+
+(* SIDE CONDITION 1, to drop once the library accepts 23 00: no definite-length constructed node without
    members under a (class, number) a BIT STRING of T can carry *)
-Definition no_empty_constructed_bits (T: ty) (n: node) : bool := safe (bits_keys T None) n.
+Definition no_empty_constructed_bits (T: ty) (n: node) : bool := safe (filter (fun x : mkey => fst x) (side_keys T None)) n.
+(* SIDE CONDITION 2: every primitive node under a (class, number) a REAL of T can carry has, if it is a
+   binary encoding, at least one mantissa octet *)
+Definition real_mantissas_present (T: ty) (n: node) : bool := safe (filter (fun x : mkey => negb (fst x)) (side_keys T None)) n.
+
+Lemma safe_split L : forall n, safe (filter (fun x : mkey => fst x) L) n = true ->
+  safe (filter (fun x : mkey => negb (fst x)) L) n = true -> safe L n = true.
+Proof.
+  induction n as [c num contents raw|c num indef kids raw IH] using node_ind'; intros H1 H2.
+  - cbn [safe] in *. rewrite memk_filter_false in H2. exact H2.
+  - cbn [safe] in *. rewrite memk_filter_true in H1.
+    apply andb_true_iff in H1. destruct H1 as [H1a H1b]. apply andb_true_iff in H2. destruct H2 as [_ H2b].
+    rewrite H1a. cbn [andb]. apply forallb_forall. intros k Hk. rewrite Forall_forall in IH.
+    rewrite forallb_forall in H1b, H2b. apply (IH k Hk (H1b k Hk) (H2b k Hk)).
+Qed.
 
 (* C09, tree form: whatever TLV tree the reference parses off the front of b and interprets under T as
    the abstract value a, the library's decoder returns a value of T with that abstract value and leaves
    the same remainder *)
 Theorem ber_all_forms_tree : forall T b n a tl,
   frag T = true -> wf_bytes b = true -> N.of_nat (length b) <= index_max ->
-  parse b = Some (n, tl) -> interp T None n = Some a -> no_empty_constructed_bits T n = true ->
+  parse b = Some (n, tl) -> interp T None n = Some a ->
+  no_empty_constructed_bits T n = true -> real_mantissas_present T n = true ->
   exists v, decode BER (Some T) b = Ok (DV T v, tl) /\ abs T v = a.
 Proof.
-  intros T b n a tl Hfr Hwf Hmax Hparse Hint Hsafe.
+  intros T b n a tl Hfr Hwf Hmax Hparse Hint Hsafe1 Hsafe2.
+  pose proof (safe_split (side_keys T None) n Hsafe1 Hsafe2) as Hsafe.
   pose proof (wf_bytes_octs b Hwf) as Hb.
   destruct (parse_shape b n tl Hb Hparse) as [Hsh Eb].
   destruct (frag_facts T Hfr) as [Hw Htb].
@@ -2219,9 +3483,8 @@ Proof.
   { split; [exact Hsh|]. split; [rewrite Eb in Hb; apply octs_app in Hb; tauto|].
     assert (Hl: (length (node_raw n) <= length b)%nat) by (rewrite Eb, app_length; lia).
     split; [lia|subst f; lia]. }
-  destruct (all_items T Hfr T [] None n a f false (bits_keys T None) Htb eq_refl Hkeys I Hok ltac:(discriminate) Hsafe
-              ltac:(intros k Hk0; apply existsb_exists; exists k; split; [exact Hk0|
-                      unfold tag_pair_eqb; rewrite !N.eqb_refl; reflexivity]) Hint) as (v & Hc & Ha).
+  destruct (all_items T Hfr (STy T) T [] None n a f false (side_keys T None) (sp_ok_sty T Htb) Htb eq_refl Hkeys I Hok ltac:(discriminate) Hsafe
+              (fun k Hk0 => memk_in k _ Hk0) Hint) as (v & Hc & Ha).
   exists v. split; [|exact Ha].
   rewrite decode_is_decode_with. rewrite Eb at 2.
   apply RoundTrip1.consumes_decode_with. unfold dec_item, dec_fuel.
@@ -2232,70 +3495,86 @@ Qed.
 Theorem ber_all_forms : forall T b a tl,
   frag T = true -> wf_bytes b = true -> N.of_nat (length b) <= index_max ->
   X690.read T b = Some (a, tl) ->
-  (forall n r, parse b = Some (n, r) -> no_empty_constructed_bits T n = true) ->
+  (forall n r, parse b = Some (n, r) -> no_empty_constructed_bits T n = true /\ real_mantissas_present T n = true) ->
   exists v, decode BER (Some T) b = Ok (DV T v, tl) /\ abs T v = a.
 Proof.
   intros T b a tl Hfr Hwf Hmax Hread Hsafe. unfold X690.read in Hread.
   destruct (parse b) as [[n rest]|] eqn:Hp; [|discriminate Hread].
   destruct (interp T None n) as [a'|] eqn:Hi; [|discriminate Hread]. cbn [opt_bind] in Hread.
   inversion Hread; subst a' rest.
-  apply (ber_all_forms_tree T b n a tl Hfr Hwf Hmax Hp Hi (Hsafe n tl eq_refl)).
+  destruct (Hsafe n tl eq_refl) as [H1 H2].
+  apply (ber_all_forms_tree T b n a tl Hfr Hwf Hmax Hp Hi H1 H2).
 Qed.
 
-(* types in which no BIT STRING occurs need no side condition *)
+(* types in which neither BIT STRING nor REAL occurs need no side condition *)
 Lemma safe_nil : forall n, safe [] n = true.
 Proof.
   induction n as [c num contents raw|c num indef kids raw IH] using node_ind'; [reflexivity|].
-  cbn [safe existsb]. rewrite andb_false_r. cbn [negb andb]. apply forallb_forall. intros k Hk.
+  cbn [safe memk existsb]. rewrite andb_false_r. cbn [negb andb]. apply forallb_forall. intros k Hk.
   rewrite Forall_forall in IH. apply IH. exact Hk.
 Qed.
 
 Theorem ber_all_forms_no_bits : forall T b a tl,
-  frag T = true -> bits_keys T None = [] -> wf_bytes b = true -> N.of_nat (length b) <= index_max ->
+  frag T = true -> side_keys T None = [] -> wf_bytes b = true -> N.of_nat (length b) <= index_max ->
   X690.read T b = Some (a, tl) ->
   exists v, decode BER (Some T) b = Ok (DV T v, tl) /\ abs T v = a.
 Proof.
   intros T b a tl Hfr Hnb Hwf Hmax Hread. apply (ber_all_forms T b a tl Hfr Hwf Hmax Hread).
-  intros n r _. unfold no_empty_constructed_bits. rewrite Hnb. apply safe_nil.
+  intros n r _. unfold no_empty_constructed_bits, real_mantissas_present. rewrite Hnb. cbn [filter]. split; apply safe_nil.
 Qed.
 
 (* the hypotheses are satisfiable on an input that uses the liberties of the basic rules: indefinite
    and definite lengths mixed, a long-form length for one octet, over-long length octets, a long-form
    tag number, a segmented BIT STRING with a nested constructed segment under an IMPLICIT tag, a
-   constructed character string, TRUE as 07, octets left unread *)
+   constructed character string, an OPTIONAL and a DEFAULT component absent, SET members out of order
+   (REAL, BOOLEAN, OID; the DEFAULT member absent), TRUE as 07, a binary REAL, octets left unread *)
 Definition ex_T : ty :=
-  TSeq [(Req, TExp (mkTag Ctx false 0) TInt); (Req, TImp (mkTag Appl false 40) TBits); (Req, TSeqOf (TStr 20)); (Req, TBool)].
+  TSeq [(Req, TExp (mkTag Ctx false 0) TInt); (Opt, TNull); (Def (VBool true), TBool);
+        (Req, TImp (mkTag Appl false 40) TBits); (Req, TSeqOf (TStr 20));
+        (Req, TSet [(Req, TBool); (Opt, TOid); (Def (VInt 7%Z), TImp (mkTag Ctx false 2) TInt); (Req, TReal)])].
 Definition ex_b : bytes :=
   [48; 128;  160; 128; 2; 129; 1; 5; 0; 0;   127; 40; 128; 3; 2; 0; 170; 35; 4; 3; 2; 4; 240; 0; 0;
-   48; 131; 0; 0; 5; 52; 3; 4; 1; 200;  1; 1; 7;  0; 0;  9; 9].
+   48; 131; 0; 0; 5; 52; 3; 4; 1; 200;
+   49; 12;  9; 3; 128; 255; 5;   1; 1; 7;   6; 2; 42; 3;
+   0; 0;  9; 9].
+Definition ex_bits : list bool := [true; false; true; false; true; false; true; false; true; true; true; true].
 
 Example ber_all_forms_nonvacuous :
   frag ex_T = true /\ wf_bytes ex_b = true /\ N.of_nat (length ex_b) <= index_max
   /\ X690.read ex_T ex_b
-     = Some (ARec [Some (AInt 5); Some (ABits [true; false; true; false; true; false; true; false; true; true; true; true]);
-                   Some (AList [AOcts [200]]); Some (ABool true)], [9; 9])
-  /\ (forall n r, parse ex_b = Some (n, r) -> no_empty_constructed_bits ex_T n = true)
+     = Some (ARec [Some (AInt 5); None; Some (ABool true); Some (ABits ex_bits); Some (AList [AOcts [200]]);
+                   Some (ARec [Some (ABool true); Some (AOid [1; 2; 3]); Some (AInt 7); Some (AReal (ABin 5 (-1)))])], [9; 9])
+  /\ (forall n r, parse ex_b = Some (n, r) -> no_empty_constructed_bits ex_T n = true /\ real_mantissas_present ex_T n = true)
   /\ decode BER (Some ex_T) ex_b
-     = Ok (DV ex_T (VRec [Some (VInt 5); Some (VBits [true; false; true; false; true; false; true; false; true; true; true; true]);
-                          Some (VList [VOcts [200]]); Some (VBool true)]), [9; 9]).
+     = Ok (DV ex_T (VRec [Some (VInt 5); None; None; Some (VBits ex_bits); Some (VList [VOcts [200]]);
+                          Some (VRec [Some (VBool true); Some (VOid [1; 2; 3]); None; Some (VReal (RBin 5 (-1)))])]), [9; 9]).
 Proof.
   split; [vm_compute; reflexivity|]. split; [vm_compute; reflexivity|]. split; [vm_compute; discriminate|].
   split; [vm_compute; reflexivity|]. split; [|vm_compute; reflexivity].
   intros n r H. assert (E: parse ex_b <> None) by (rewrite H; discriminate).
   revert H. destruct (parse ex_b) as [[n0 r0]|] eqn:Hp; [|congruence].
   intros H. inversion H; subst n0 r0. clear H E.
-  assert (Hc: match parse ex_b with Some (n1, _) => no_empty_constructed_bits ex_T n1 | None => false end = true)
+  assert (Hc: match parse ex_b with
+              | Some (n1, _) => no_empty_constructed_bits ex_T n1 && real_mantissas_present ex_T n1
+              | None => false end = true)
     by (vm_compute; reflexivity).
-  rewrite Hp in Hc. exact Hc.
+  rewrite Hp in Hc. apply andb_true_iff in Hc. exact Hc.
 Qed.
+
+(* the second side condition is needed as the reference stands *)
+Example real_refuted_empty_mantissa :
+  X690.read TReal [9; 2; 128; 0] = Some (AReal AZero, []) /\ decode BER (Some TReal) [9; 2; 128; 0] = Err EMalformed.
+Proof. vm_compute. split; reflexivity. Qed.
 
 Print Assumptions split_ident_dec_ident.
 Print Assumptions split_length_dec_len.
 Print Assumptions parse_one_shape.
 Print Assumptions oid_leaf.
+Print Assumptions real_leaf.
 Print Assumptions octet_string_item.
 Print Assumptions bit_string_item.
 Print Assumptions all_items.
 Print Assumptions ber_all_forms_tree.
 Print Assumptions ber_all_forms.
 Print Assumptions ber_all_forms_no_bits.
+
